@@ -12,1708 +12,608 @@ Definition show_fres (r : fres) : string :=
   end.
 Definition check (rs : list rune) : string := digest (show_fres (format_res rs)).
 Definition full (rs : list rune) : string := show_fres (format_res rs).
-Eval vm_compute in ("<<<M443>>>" ++ check (runes_of_ascii "// `tick` ""quote"" 'q'
-packet A
-{
-@lengthOf(
-msg_type )
-repeat
-int64	rootA
-// " ++ [27880; 37322]%N ++ runes_of_ascii "
-// `tick` ""quote"" 'q'
-,x
-    ,
-@calculatedFrom( """"
-) //x
-x @lengthOf(// @lengthOf(
-trueish )
-, match
-    x
-as x_y_z
-{
-""a\""b"": // trailing space 
-packetx}
-    , packetx @calculatedFrom("""" )
-`u8 x,` ,
-float32
-u128 `crlf
-line` , match x
-    as
-T { [ ""packet""
-    ]
-: body} , x_y_z
-@calculatedFrom( """" ) ,
-    rootA
-tag ,
-    } root packet
-    body
-// " ++ [27880; 37322]%N ++ runes_of_ascii "
-/// triple
-{@calculatedFrom( ""a\\""
-)
-    repeat i8
-metadata ,	@calculatedFrom( """ ++ [128512]%N ++ runes_of_ascii """
-    )
-    repeat	pack string_,@rightPad
-    (//x
-' ') char[ 10 ]
-calculatedFrom@lengthOf(  pack)`doc`	,	@calculatedFrom(
-    ""it's"" //	t
-) repeat Packet
-{// " ++ [27880; 37322]%N ++ runes_of_ascii "
-match options1 as
-body
-{ ""\n""
-: Foo,
-3 : //
-asx , }
-    ,} , @lengthOf( As
-)float64 Logon @calculatedFrom( """" )
-    /// triple
-    ,	i64_ {match  x_y_z
-as string_  { 42: pack ""\" ++ [233]%N ++ runes_of_ascii """ // " ++ [128512]%N ++ runes_of_ascii " emoji
-: rootA , 255
-    :lengthOf 4294967296
-:tag ,
-} , }  , @tag( 3 )
-    @tag( 7  )	@rightPad ()repeat
-//x
-//x
-uint64 u128, int16
-    packetx // " ++ [27880; 37322]%N ++ runes_of_ascii "
-`" ++ [233]%N ++ runes_of_ascii "`
-// " ++ [27880; 37322]%N ++ runes_of_ascii "
-// c
-,
-repeat
-metadata
-//
-/// triple
-len
-//x
-// trailing space 
-,
-} packet rootA{ repeat A{
-    repeat T {roots @lengthOf( i64_ )
-    ,
-u16
-    tag @calculatedFrom( ""packet"" )  ,  string falsey @calculatedFrom(
-    ""\n"" ) ,
-match x as u8x
-//	t
-// " ++ [27880; 37322]%N ++ runes_of_ascii "
-{ 0 // trailing space 
-: string_
-,
-"""" :  _x""\" ++ [233]%N ++ runes_of_ascii """/// triple
-:
-    MetaDataX , } , },}	,
-    @calculatedFrom(	""a\""b"") repeat
-    i16 i8i8  ,
-repeat
-float32 BodyLength `two words` , @leftPad
-(
-    ) u32 _x // packet A { u8 x, }
-@calculatedFrom( ""CRC32"" ), @leftPad (
-' '	) crc @lengthOf( o )
-`u8 x,`  , @lengthOf(Packet )	msg_type
-Z9_  , u { repeat o, }
-, }
-packet rootA
-{ repeat T uint8x,
-}
-    //	t
-    packet x_y_z { @tag( 255 // " ++ [128512]%N ++ runes_of_ascii " emoji
-)  float64
-lengthOf ,@rightPad
-    // " ++ [128512]%N ++ runes_of_ascii " emoji
-    ( '0' )
-    len
-@calculatedFrom( ""a\\""
-) ,
-uint32 Logon	@calculatedFrom(  ""`tick`"" //	t
-) `it's`
-, @rightPad (
-    ) zchar[ 00
-    ]  len ,	@tag( // packet A { u8 x, }
-3)char[ 255 ] Header//x
-`{ , }` ,  match Logon	as
-metadata { ""{,}""
-    : pack , } , }")).
-Eval vm_compute in ("<<<M758>>>" ++ check (runes_of_ascii "root packet o
-    {
-@lengthOf( BodyLength) uint64 string_@calculatedFrom( ""a\""b""
-) ,	repeat tag { match crc  as  lengthOf
-    { ""{,}"" :
-    //	t
-    i8i8 , 255 : trueish
-// c
-/// triple
-[ 10
-    // @lengthOf(
-    , 1 ,
-    // " ++ [128512]%N ++ runes_of_ascii " emoji
-    ""abc"" , 0123456789 ,
-4294967296
-    ,
-00
-    ]	: body } ,
-int32 uint8x @calculatedFrom( ""// no comment"" ) ,// @lengthOf(
-zchar[3
-] msg_type `` , repeat
-float32 pack`it's` //
-, }, match  u as _x	{
-00
-: calculatedFrom , 255 // @lengthOf(
-: float ,
-""\n"" : repeatCount,
-    } ,@tag(
-3
-    ) match
-// c
-//
-A as Z9_ { ""a\\"": //x
-rootA""// no comment"" : f32a,[ ""x y"" ]: i64_ } ,x_y_z ,
-int32 f32a , // packet A { u8 x, }
-@leftPad
-    (
-)
-f32 roots , @lengthOf( packetx ) @tag(  255 )// c
-@tag(
-    3
-    )i32
-    string_
-    @calculatedFrom(
-//	t
-// packet A { u8 x, }
-""" ++ [128512]%N ++ runes_of_ascii """)
-    `doc`,@leftPad ( ) int8 trueish // `tick` ""quote"" 'q'
-@lengthOf(	uint8x
-/// triple
-// " ++ [27880; 37322]%N ++ runes_of_ascii "
-) ,
-    zchar[
-    007] tag
-    @calculatedFrom(""{,}"" )
-    , } packet leftPad {
-string Foo
-, metadata
-//	t
-// " ++ [128512]%N ++ runes_of_ascii " emoji
-u8x ,
-msg_type // c
-`
-` ,  @leftPad
-(
-    )
-repeat metadata {
-//x
-//	t
-char[]
-// a // b
-// packet A { u8 x, }
-i8i8@calculatedFrom( ""CRC32""
-)
-    , char[1  ] rootA , match falsey as zchar { 4294967296 :leftPad}
-, // c
-char[/// triple
-007 ]stringy @lengthOf(
-    /// triple
-    i64_	)`a\` ,// packet A { u8 x, }
-} ,
-    @rightPad (
-    '0'
-) @lengthOf(
-    /// triple
-    x
-    ) @calculatedFrom(
-""1"" ) repeat roots
-    ,
-    char[]  int@calculatedFrom(""" ++ [128512]%N ++ runes_of_ascii """)`a\`
-    ,zchar[
-42 ] stringy ,
-@lengthOf(chars )
-char[ 255 ] int,
-    crc@lengthOf(
-    falsey
-    )`line1
-line2`
-    ,}
-// trailing space 
-")).
-Eval vm_compute in ("<<<M588>>>" ++ check (runes_of_ascii "MetaData stringy { } packet Packet
-//	t
-// c
-{ char[007  ] o @calculatedFrom(""1"" ) //	t
-, // @lengthOf(
-}  packet
-    o{ u128	{
-u8 crc  , zchar[	1
-    ] _x
-@lengthOf(  Z9_ )
-    /// triple
-    `doc`
-,
-    char[ 7 ]
-    falsey , }
-, @lengthOf( int) match	chars
-    as
-asx
-{
-[ 255
-]	: x_y_z , 255 : o 0123456789 :
-a1, ""// no comment"" :
-    trueish, }, } packet Z9_	{	@rightPad ( '0')@tag(	00 ) f32
-uint8x @calculatedFrom( //	t
-""" ++ [128512]%N ++ runes_of_ascii """ ) , } packet leftPad {
-match
-roots as trueish { [""{,}""
-,0 // " ++ [128512]%N ++ runes_of_ascii " emoji
-] : BodyLength, 65535 : As 65535 :zchar ,
-3:rootA , 255 : x_y_z ,
-} , @leftPad() float32	x_y_z	, repeat T
-{ u128 @calculatedFrom(
-""CRC32"" ) , char[]
-    tag @lengthOf(MetaDataX)
-,  float  rootA,
-Foo @calculatedFrom(
-    ""packet""
-) , }
-// `tick` ""quote"" 'q'
-//x
-, match x
-as msg_type {
-    3
-:
-u
-} ,@lengthOf( tag
-/// triple
-/// triple
-)
-string  a1,@rightPad( '0'
-    ) @tag(
-// a // b
-// a // b
-7 ) match
-Logon
-// a // b
-//	t
-as
-    /// triple
-    falsey
-    {
-""CRC32"" // c
-:
-    // " ++ [27880; 37322]%N ++ runes_of_ascii "
-    x//
-,4294967296
-: Header,""// no comment""
-    // " ++ [128512]%N ++ runes_of_ascii " emoji
-    :
-    charz 00:// trailing space 
-u128
-} , @calculatedFrom(
-""a\""b"" ) @calculatedFrom(""a\""b"") @tag(
-    // " ++ [128512]%N ++ runes_of_ascii " emoji
-    42
-    //x
-    )	repeat zchar[  00
-] falsey	,
-    // " ++ [27880; 37322]%N ++ runes_of_ascii "
-    @tag(// a // b
-4294967296 ) @calculatedFrom( ""abc""
-    )@rightPad( ' '
-    ) crc @calculatedFrom( ""\" ++ [233]%N ++ runes_of_ascii """ // " ++ [128512]%N ++ runes_of_ascii " emoji
-)
-,
-    u16 metadata , }
-")).
-Eval vm_compute in ("<<<M3722>>>" ++ check (runes_of_ascii "packet string_// packet A { u8 x, }
-
-	{ @lengthOf(x_y_z	// " ++ [128512]%N ++ runes_of_ascii " emoji
-      )
-
-u8x  // @lengthOf(
-@lengthOf( 
-MetaDataX ) ,	match
-u128	as
-
-    calculatedFrom
-{ ""// no comment""  :
-	Foo 
-}	,@tag(
-	255
-)  f32a
-    body
-, f64
-i64_
-
-`two words`
-    ,
-@tag( 7
-	)
-@leftPad ()
-
-    // c
-		// a // b
-  @calculatedFrom( """ ++ [233]%N ++ runes_of_ascii "t" ++ [233]%N ++ runes_of_ascii """  )
-uint16
-
-    u@lengthOf(
-
-    i64_ ) `tab	here`,	@lengthOf( options1) roots 
-{string
-
-    x@calculatedFrom(
-
-""1""
-    ) 
-, len`say ""hi""`,
-    rootA
-@lengthOf(
-    crc
-
-    ) 
-//	t
-  , i64_
-    @lengthOf(
-Logon )
-	// trailing space 
-  	`doc`
-
-,} 
-//
-	//
-,
-
-Packet
-    @calculatedFrom(
-""abc"" ) ,
-    @tag(
-    7 )
-
-    @lengthOf(crc )  match crc
-as
-Z9_ {
-42 
-: u128
-	10
-	:
-Packet ,  ""packet"": repeatCount [
-""" ++ [128512]%N ++ runes_of_ascii """ ,
-""abc""  // " ++ [27880; 37322]%N ++ runes_of_ascii "
-	]
-
-    :
-
-    u8x  [ ""a\""b"" 	 /// triple
-	,
-42	]
-
-    :
-	rootA
-    , [
-    007
-, ""1"" , 
-//	t
-    """ ++ [233]%N ++ runes_of_ascii "t" ++ [233]%N ++ runes_of_ascii """] :
-chars  ,}
-
-    , }	root
-packet
-u{@calculatedFrom(""CRC32""
-	) _x 
-@calculatedFrom(
-""\" ++ [233]%N ++ runes_of_ascii """)
-
-    , calculatedFrom 
-lengthOf
-,  @rightPad
-	()uint32  zchar
-	@calculatedFrom(""" ++ [233]%N ++ runes_of_ascii "t" ++ [233]%N ++ runes_of_ascii """
-
-) ,
-A
-    , }root
-
-packet
-int { 
-    // `tick` ""quote"" 'q'
-// `tick` ""quote"" 'q'
-char stringy
-	`a\`,  // trailing space 
-}
-
-    options
-	{
-	Z9_//	t
-		=
-
-""abc"";crc =
-' '
-
-    ;matchKey
-=
-
-00 
-;
-	}
-")).
-Eval vm_compute in ("<<<M3708>>>" ++ check (runes_of_ascii "
-
-  packet	trueish 
-    // @lengthOf(
-
-{ 
-char[ 7]	chars
-@calculatedFrom(
-
-    """ ++ [128512]%N ++ runes_of_ascii """ )
-
-    , 
-char[]uint8x
-
-@calculatedFrom(""`tick`""
-
-)	// c
-      `
-` , int16  // a // b
-    metadata @calculatedFrom(
-""" ++ [128512]%N ++ runes_of_ascii """	// @lengthOf(
-  ) `doc`,pack@lengthOf(
-    stringy
-) ,
-
-    u8 
-float
-
-    @lengthOf( 
-leftPad	)
-
-    , @lengthOf(chars
-)
-	f32a
-
-trueish
-
-    ,  repeat
-zchar[	//	t
-	4294967296 ]
-
-    u
-    ,@leftPad ( 
-  //
-
-  ' ' 	 // trailing space 
-    )
-    @lengthOf(leftPad	) 
-@tag(	7
-
-) 
-repeat
-
-    string u128	,
-	}
-
-    packet Header
-{	u64 leftPad
-
-, @lengthOf( u128	)  repeat
-uint32  T ,
-
-@tag( 4294967296 )repeat
-
-    uint32
-    x_y_z ``
-,
-T ,
-@tag(
-	1
-    ) 
-zchar[
-7 
-]Packet @lengthOf(f32a 
-)
-	    // @lengthOf(
-	//x
-      , // trailing space 
-	  float32 lengthOf , // packet A { u8 x, }
-i32 	 // " ++ [128512]%N ++ runes_of_ascii " emoji
-	calculatedFrom
-    `crlf
-line` ,
-	@tag(
-0123456789 )
-    @tag(1  // trailing space 
-
-	)  
-  //
-
-// `tick` ""quote"" 'q'
-@calculatedFrom(
-
-""" ++ [128512]%N ++ runes_of_ascii """
-)float32 lengthOf
-	@calculatedFrom(""\n"" )`" ++ [233]%N ++ runes_of_ascii "`
-,
-zchar[ 
-007
-    ]zchar
-@calculatedFrom(
-    // a // b
-  // packet A { u8 x, }
-		""abc""
-
-)
-`" ++ [28040; 24687; 31867; 22411]%N ++ runes_of_ascii "`/// triple
-
-,
-	int32 roots
-,  }
-")).
-Eval vm_compute in ("<<<M4125>>>" ++ check (runes_of_ascii "
-MetaData
-asx
-
-{
-
-    }
-	options{
-body= 
-    //x
-    	// @lengthOf(
-char[]  ;	// @lengthOf(
-	repeatCount
-=true
-;
-	packetx =
-""a\""b"" 
-;
-	float=	""x y"" ; zchar
-	// @lengthOf(
-
-	=
-	""\" ++ [233]%N ++ runes_of_ascii """
-;  }
-    MetaData 
-_x{
-    u16 
-falsey  ``  ,
-    }
-    root 
-packet 
-metadata
-
-    {	}packet
-    Foo
-
-{
-
-repeat 
-        // trailing space 
-
-	u128
-	, @tag(  // trailing space 
-
-  7  )uint16
-	MetaDataX
-	,
-    @tag(
-1
-
-) 
-        /// triple
-falsey
-
-    `say ""hi""` 
-, 
-@rightPad	(//	t
-
-)
-
-    @tag(3
-	)	u ,@lengthOf(
-    roots// " ++ [128512]%N ++ runes_of_ascii " emoji
-    )
-
-match
-
-body
-	as repeatCount
-
-    {  ""CRC32""// " ++ [27880; 37322]%N ++ runes_of_ascii "
-    :
-
-asx ,
-
-42
-	:msg_type
-
-    },  // packet A { u8 x, }
-stringy {	repeat
-char[
-// c
-  3 ]uint8x ,
-match Logon
-as A 
-{""abc""
-	:
-
-    i8i8 
-,
-	}
-	,  match
-
-BodyLength
-    as
-    len
-    { [
-0123456789
-,  
-  //
-
-	// @lengthOf(
-
-  007	,
-	4294967296
-    , ""{,}"" ]	:	// " ++ [128512]%N ++ runes_of_ascii " emoji
-Foo
-
-,	} //	t
-  ,  } ,
-@leftPad 
-('0'
-
-    ) 
-uint8x @lengthOf(
-
-i8i8
-	)	, 	 //	t
-    _x{ 
-repeat 
-x
-`line1
-line2`
-, }
-,	@tag(
-	42
-
-) falsey
-        // trailing space 
-      u128	// trailing space 
-  	,
-int64 MetaDataX ,}
-")).
-Eval vm_compute in ("<<<M210>>>" ++ check (runes_of_ascii "packet chars
-    {
-int32 trueish ,match Pad
-as repeatCount { [0] :// " ++ [27880; 37322]%N ++ runes_of_ascii "
-Pad
-    , /// triple
-3
-: Foo , ""abc""
-    :
-i64_ //	t
-, [255
-    ,	3 ]
-    :
-Packet ,[
-0123456789 // @lengthOf(
-,""// no comment"" ]
-: Packet , }
-    , // c
-match  a1 as u {[// `tick` ""quote"" 'q'
-""abc""
-, """ ++ [233]%N ++ runes_of_ascii "t" ++ [233]%N ++ runes_of_ascii """
-, """" ,  0
-    ,
-    //	t
-    255 ]
-:u
-    //	t
-    ,
-    } ,@tag(  10
-    ) match a1
-    as a1
-{
-    [42
-    ]//
-:packetx ,
-    } ,@lengthOf(As ) repeat	char[0123456789] repeatCount`tab	here` ,string o `crlf
-line` ,
-//x
-// a // b
-As
-    @lengthOf(//x
-i8i8 )
-    , string repeatCount @lengthOf( u128 ) ,
-    //
-    @tag( 00 ) repeat pack Logon , }	root packet Foo {@tag( 1)char[ // packet A { u8 x, }
-3
-]
-i64_ ,
-f32
-// packet A { u8 x, }
-// " ++ [27880; 37322]%N ++ runes_of_ascii "
-charz , // `tick` ""quote"" 'q'
-i8 zchar
-    @lengthOf(// `tick` ""quote"" 'q'
-MetaDataX ) /// triple
-,@tag( 007 )u8 _x ,@tag(  255 ) msg_type@calculatedFrom(""`tick`"") `doc` ,  @calculatedFrom( """ ++ [233]%N ++ runes_of_ascii "t" ++ [233]%N ++ runes_of_ascii """ ) match len as /// triple
-As {""// no comment"" : falsey ,
-    }  , } MetaData leftPad{ x i8i8 , } //")).
-Eval vm_compute in ("<<<M3953>>>" ++ check (runes_of_ascii "
-
-  options
-{ StringPrefixLenType = u32
-
-    ;
-
-ArrayPrefixLenType= 
-u8
-
-    ;
-FixedStringPadFromLeft
-= 
-false 
-;
-
-    } packet
-    Logon
-    {i8
-venue 
-, int16  f1,
-zchar[
-
-8
-
-    ]
-
-Acct
-
-    ,
-
-    repeat
-InNote16{InQty73
-{
-	float32 tag7,
-    }
-
-,  f32 Acct
-    ,	zchar[
-
-    5]
-sym
-, }
-
-,uint16
-    Side2
-
-,
-    i32 lastPx
-    ,
-
-    }packet
-
-Fill  { repeat InOrderid15 {
-	zchar[ 8
-]
-    sym, repeat
-    char[	2
-
-]  OrderId ,repeat Logon
-	,
-    InQty82
-{  char[]
-Tail
-
-,repeat	Logon
-
-    ,
-float64 price 
-, f64
-Side2
-
-    , }
-,
-    char[ 12 ] venue ,char[
-4 
-]
-
-    Px
-    ,	} ,
-
-@rightPad( '0' ) char[
-
-    2
-	]
-
-    venue,
-InPrice99{
-	InAcct72 {
-
-u8
-
-pad0	,
-
-}
-,u32
-    OrderId
-	,
-	Logon
-
-,
-}
-    ,
-}root
-
-    packet
-    Reject {
-    zchar[ 9
-    ] 
-msgKind , u32
-
-venue  ,u16
-
-seqNo 
-@lengthOf(  Body )
-,  match venue
-
-as
-
-    Body  {57
-:
-
-    Fill ,8
-:  Logon
-, } ,
-u16
-
-Tail @calculatedFrom(
-    ""CRC32""
-    )
-, }
-
-")).
-Eval vm_compute in ("<<<M4114>>>" ++ check (runes_of_ascii "root
-
-packet
-    body
-	{ 	 /// triple
-      crc
-
-x_y_z`say ""hi""`	,
-
-float 	 // `tick` ""quote"" 'q'
-  _x
-
-,
-    T 	 // " ++ [128512]%N ++ runes_of_ascii " emoji
-	`a\`
-	    // " ++ [27880; 37322]%N ++ runes_of_ascii "
-
-  ,uint64
-MetaDataX ,
-
-    repeat 
-zchar[
-7	]	calculatedFrom``, 
-uint32
-
-    len 
-	    // c
-	  // @lengthOf(
-    	`a\`
-
-    ,
-
-    }/// triple
-    options 
-{	} 
-packet
-a1 {
-@tag(	1
-)
-	Logon
-    @lengthOf(  options1 )
-`{ , }`
-, @calculatedFrom(
-    ""abc""
-
-    )
-/// triple
-      f32a // " ++ [27880; 37322]%N ++ runes_of_ascii "
-    {
-leftPad
-{ // trailing space 
-
-  o	matchKey ``
-,
-	}
-	,int32 int
-	// c
-	  // @lengthOf(
-      ``
-	, char[
-007
-
-    ]zchar 
-@lengthOf(Z9_
-	)
-    `tab	here`,
-char[
-    1	]
-falsey
-
-,
-	}
-	,
-repeat int16
-    Z9_  ,
-
-match
-zchar
-as
-
-    zchar 
-{
-
-    ""packet"" :
-x_y_z
-	,
-	[3 
-    // " ++ [128512]%N ++ runes_of_ascii " emoji
-	, 
-""CRC32""	,0, ""CRC32""	//
-	,0123456789]
-	:len
-,
-[
-0
-,	4294967296 ]
-    :
-Packet ,
-    [
-
-65535
-
-]
-    : options1[ 10 ]	//	t
-	:  u128 ,	}
-
-, // packet A { u8 x, }
-  }
-
-")).
-Eval vm_compute in ("<<<M3264>>>" ++ check (runes_of_ascii "// top
-options
-    // c0
-{
+Eval vm_compute in ("<<<M2027>>>" ++ check (runes_of_ascii "// top
+options {
     // c1
-chars
-    // c2
-=
-    // c3
-""a\\""
-    // c4
-}
-    // c5
-packet
-    // c6
-Z9_
-    // c7
-{
-    // c8
-match
+    StringPrefixLenType = u8;// c5a
+    // c5b
+    ArrayPrefixLenType = u32;
     // c9
-BodyLength
-    // c10
-as
-    // c11
-roots
-    // c12
-{
-    // c13
-""" ++ [28040; 24687]%N ++ runes_of_ascii """
-    // c14
-:
-    // c15
-falsey
-    // c16
+    FixedStringPadFromLeft = false;// c13
+    FixedStringPadChar = ' ';
+}
+
+// c18
+packet Party {
+    repeat i16 Qty,
+    // c25
+    repeat string Tail,
+    // c29
+    i8 OrderId,// c32
+    i8 msgKind,
+    // c35
+}
+
+packet Ack {
+    Party,
+    repeat InRef20 {
+        Party,// c46a
+        // c46b
+        int8 tag7,
+        char[5] OrderId,// c54
+        zchar[7] Tail,// c59a
+        // c59b
+        char[] count,
+        // c62
+        InPrice45 {
+            // c64
+            Party,
+            // c66
+            char[1] Px,
+        },
+        // c73
+    },// c75
+    char[12] price,// c80a
+    // c80b
+    int8 sym,
+    // c83
+}
+
+packet Reject {
+    // c87a
+    // c87b
+    repeat InPrice47 {
+        Party,
+        // c92
+    },
+    zchar[4] x,
+    repeat Ack,
+    zchar[2] Ref,
+    repeat Party,// c110
+}// c111
+
+packet Cancel {
+    // c114a
+    // c114b
+    Reject,// c116
+    repeat string f1,// c120
+    uint16 OrderId,// c123
+    u8 Acct,
+    int8 msgKind,// c129a
+    // c129b
+}
+
+root packet Fill {
+    u8 count,
+    // c137
+    char[] tag7,
+    // c140
+    zchar[7] Acct,// c145
+    u32 OrderId,// c148
+    u32 Note @lengthOf(Body),// c154
+    match OrderId as Body {
+        // c159a
+        // c159b
+        106 : Cancel,
+        // c163
+        196 : Reject,
+        // c167
+        74 : Party,
+        // c171
+        75 : Ack,
+        // c175a
+        // c175b
+    },// c177a
+    // c177b
+}// c178a
+// c178b")).
+Eval vm_compute in ("<<<M1419>>>" ++ check (runes_of_ascii "packet Frame
+    // c1
+{ // c2a
+  // c2b
+u8 HK // c4a
+  // c4b
+, // c5
+u8
+    // c6
+BK // c7a
+  // c7b
+, // c8a
+  // c8b
+u8 TK // c10a
+  // c10b
 ,
-    // c17
-00
-    // c18
-:
+    // c11
+match HK as // c14a
+  // c14b
+Hdr { // c16a
+  // c16b
+1 // c17a
+  // c17b
+: // c18a
+  // c18b
+HdrA
     // c19
-u128
-    // c20
-0
-    // c21
+, // c20a
+  // c20b
+2 // c21
 :
     // c22
-len
-    // c23
+HdrB // c23a
+  // c23b
 ,
     // c24
-007
-    // c25
-:
+} ,
     // c26
-f32a
-    // c27
-}
+match BK
     // c28
-,
-    // c29
-@tag(
-    // c30
-3
-    // c31
-)
-    // c32
-@calculatedFrom(
+as Body // c30
+{ // c31
+1 // c32a
+  // c32b
+:
     // c33
-""`tick`""
-    // c34
-)
-    // c35
-@leftPad
-    // c36
-(
-    // c37
-' '
-    // c38
-)
-    // c39
-string
-    // c40
-asx
-    // c41
-,
-    // c42
-string
-    // c43
-u
+BodyA // c34
+, // c35a
+  // c35b
+2 : BodyB // c38
+, // c39a
+  // c39b
+} // c40
+, match // c42
+TK as
     // c44
-@lengthOf(
-    // c45
-options1
-    // c46
-)
-    // c47
-,
+Trl // c45a
+  // c45b
+{ 1 // c47a
+  // c47b
+:
     // c48
-float32
+TrlA
     // c49
-i64_
-    // c50
-@calculatedFrom(
+, }
     // c51
-""a\""b""
-    // c52
-)
-    // c53
 ,
-    // c54
+    // c52
+} // c53
+packet HdrA // c55a
+  // c55b
+{ // c56
+u8 // c57
+a // c58
+, // c59a
+  // c59b
 }
-    // c55
+    // c60
+packet // c61a
+  // c61b
+HdrB { // c63
+u16 b ,
+    // c66
+}
+    // c67
+packet BodyA
+    // c69
+{ u32
+    // c71
+c // c72
+,
+    // c73
+}
+    // c74
+packet // c75a
+  // c75b
+BodyB { // c77
+u64 // c78a
+  // c78b
+d , } // c81a
+  // c81b
+packet // c82
+TrlA { // c84
+u8 // c85a
+  // c85b
+e
+    // c86
+, // c87a
+  // c87b
+} root
+    // c89
+packet // c90
+Msg // c91
+{ // c92a
+  // c92b
+Frame , u8 // c95
+x
+    // c96
+, // c97a
+  // c97b
+} // c98
 ")).
-Eval vm_compute in ("<<<M3760>>>" ++ check (runes_of_ascii "packet uint8x {
-    @lengthOf(Pad)
-    Foo,
+Eval vm_compute in ("<<<M1398>>>" ++ check (runes_of_ascii "// top
+packet // c0
+A // c1
+{ // c2a
+  // c2b
+u8 a // c4
+, // c5
+}
+    // c6
+packet // c7
+B
+    // c8
+{ u16
+    // c10
+b // c11
+, }
+    // c13
+packet // c14a
+  // c14b
+C { // c16
+u32 // c17a
+  // c17b
+c // c18
+, // c19
+} // c20a
+  // c20b
+root packet
+    // c22
+M // c23a
+  // c23b
+{
+    // c24
+u16 Kc // c26a
+  // c26b
+, // c27a
+  // c27b
+u16
+    // c28
+Kb // c29
+,
+    // c30
+u16 // c31a
+  // c31b
+Ka // c32a
+  // c32b
+, // c33a
+  // c33b
+match Kc // c35a
+  // c35b
+as
+    // c36
+X // c37
+{ 9 // c39
+: // c40
+A // c41
+, // c42
+10 // c43
+: // c44
+B // c45
+, // c46a
+  // c46b
+} // c47a
+  // c47b
+, match // c49
+Kb
+    // c50
+as Y // c52a
+  // c52b
+{ // c53
+2 // c54a
+  // c54b
+: // c55a
+  // c55b
+C ,
+    // c57
+1
+    // c58
+: // c59a
+  // c59b
+A
+    // c60
+,
+    // c61
+}
+    // c62
+,
+    // c63
+match // c64a
+  // c64b
+Ka // c65
+as // c66a
+  // c66b
+Z { 1 // c69
+: // c70
+B , // c72
+} // c73
+, // c74a
+  // c74b
+A // c75a
+  // c75b
+, // c76
+B // c77a
+  // c77b
+, // c78
+C
+    // c79
+, }
+    // c81
+")).
+Eval vm_compute in ("<<<M1563>>>" ++ check (runes_of_ascii "options {
+    string_ = zchar[00];
 }
 
-root packet Foo {
-    char[] i64_ @calculatedFrom(""a	b"") `u8 x,`,
-    zchar[3] tag @lengthOf(tag),
-    @lengthOf(falsey)
-    options1 @lengthOf(repeatCount),
-    string matchKey `crlf
-    line`,
-}
-
-packet metadata {
-    //	t
-    uint32 i8i8,
-}
-
-root packet Header {
-    @lengthOf(_x)
-    @lengthOf(A)
-    metadata tag `
-    `,
-    x_y_z `tab	here`,
-    Pad,
-    @calculatedFrom(""" ++ [128512]%N ++ runes_of_ascii """)
-    //x
-    repeat string f32a `crlf
-    line`,
-    string packetx @calculatedFrom(""a\\""),
-}
-
-packet u8x {
-    pack,
-    @calculatedFrom(""// no comment"")
-    packetx,
-    match options1 as chars {
-        ""1"" : Logon,
-        7 : trueish,
+packet falsey {
+    @lengthOf(float)
+    string o,
+    repeat msg_type,
+    match MetaDataX as _x {
+        3 : Pad,
     },
-    match asx as Logon {
-        [3] : _x,
-        [""// no comment"", 7, """ ++ [233]%N ++ runes_of_ascii "t" ++ [233]%N ++ runes_of_ascii """, ""it's"", 1] : i8i8,
-        // " ++ [27880; 37322]%N ++ runes_of_ascii "
-        [""1""] : T,
-    },
-}// a // b")).
-Eval vm_compute in ("<<<M3667>>>" ++ check (runes_of_ascii "MetaData msg_type {
-    string charz,
-    crc u8x,
-    u16 x_y_z `u8 x,`,
-    i64 zchar,
-}
-
-// @lengthOf(
-packet T {
-    @calculatedFrom(""a\\"")
-    uint16 chars @calculatedFrom(""x y"") `
+    leftPad @lengthOf(i8i8),
+    @tag(0123456789)
+    i16 Packet `
     `,
-}
-
-packet pack {
-}
+    o pack `tab	here`,
+    zchar[10] int,
+    int16 Foo @calculatedFrom(""CRC32"") `u8 x,`,
+    match f32a as u8x {
+        [""{,}""] : T,
+        [
+            ""1"", 65535, 3, 0, ""`tick`"",
+            0123456789, """ ++ [128512]%N ++ runes_of_ascii """, ""a\\""
+        ] : uint8x,
+        255 : a1,
+        ""a	b"" : falsey,
+        """ ++ [28040; 24687]%N ++ runes_of_ascii """ : x,
+        //	t
+        [""packet"", 3] : int,
+    },
+    repeat Foo {
+        zchar[1] body ``,
+        roots rootA,
+        char[0] rootA `doc`,
+    },
+}// `tick` ""quote"" 'q'
 
 options {
 }
 
-packet trueish {
-    // trailing space 
-    @calculatedFrom(""abc"")
-    match chars as lengthOf {
-        [4294967296] : a1,
-        [
-            ""CRC32"", 7, ""1"", 4294967296, ""a\\"",
-            0, 65535, ""{,}""
-        ] : a1,
-    },
-    string lengthOf `" ++ [28040; 24687; 31867; 22411]%N ++ runes_of_ascii "`,
-    @lengthOf(x)
-    match charz as a1 {
-        255 : Logon,
-    },
-    @calculatedFrom(""a	b"")
-    @tag(00)
-    @lengthOf(zchar)
-    body @lengthOf(msg_type),
-    MetaDataX @lengthOf(len) `a\`,
-    @rightPad('\x00')
-    @lengthOf(Packet)
-    string u128 `u8 x,`,
-    packetx @lengthOf(o),
+options {
+    Header = int16;
+    roots = false;
+    repeatCount = uint8;
+    stringy = ""x y"";
+    leftPad = ""it's"";
 }
-// @lengthOf(")).
-Eval vm_compute in ("<<<M171>>>" ++ check (runes_of_ascii "root  packet body { /// triple
-crc
-x_y_z `say ""hi""` , float// `tick` ""quote"" 'q'
-_x , T// " ++ [128512]%N ++ runes_of_ascii " emoji
-`a\`
-    // " ++ [27880; 37322]%N ++ runes_of_ascii "
-    , uint64 MetaDataX , repeat zchar[ 7 ]
-    calculatedFrom `` , uint32 len
-// c
-// @lengthOf(
-`a\` , } /// triple
-options{
-} packet	a1{ @tag( 1 )Logon @lengthOf(	options1) `{ , }` , @calculatedFrom( ""abc"")
-    /// triple
-    f32a // " ++ [27880; 37322]%N ++ runes_of_ascii "
-{leftPad { // trailing space 
-o matchKey
-``  , }
-, int32 int
-// c
-// @lengthOf(
-``
-, char[ 007 ]
-    zchar
-@lengthOf( Z9_ ) `tab	here`
-    , char[ 1 ] falsey ,  } ,
-    repeat int16 Z9_ , match	zchar as zchar{ ""packet"" :	x_y_z	,
-[3
-    // " ++ [128512]%N ++ runes_of_ascii " emoji
-    , ""CRC32"", 0,""CRC32""//
-, 0123456789 ]
-: len
-, [0 ,	4294967296
-] :
-Packet
-, [65535
-] : options1 [ 10]//	t
-: u128 , } , // packet A { u8 x, }
-}
-")).
-Eval vm_compute in ("<<<M508>>>" ++ check (runes_of_ascii "packet Header {
-    @rightPad(  '0' // `tick` ""quote"" 'q'
+
+MetaData u {
+    string_ Header,
+    zchar[3] i64_,
+}")).
+Eval vm_compute in ("<<<M104>>>" ++ check (runes_of_ascii "
+root packet stringy{ repeat u16
+falsey `
+`
+, u16 Pad,
+    @lengthOf( // packet A { u8 x, }
+x)Logon { repeat
+zchar[65535
+    ]
+Packet`it's` , } ,}packet len {@leftPad( ) repeat metadata { match asx
+    as asx{""a\\"" :
+f32a ,}
+    ,}// " ++ [128512]%N ++ runes_of_ascii " emoji
+,
+uint16  falsey ,body ,repeat
+    // a // b
+    string
+    lengthOf `say ""hi""`
+    , } packet i64_
+{	x
+    ,@lengthOf( i64_ )
+@tag( 7// a // b
 )
-uint8x @calculatedFrom( ""a	b""
-)  , char[]u128
-    // @lengthOf(
-    @calculatedFrom( ""// no comment"" ) , @tag(//
-0123456789
-) char[ 255
-]	lengthOf@calculatedFrom(
-"""" )
-    `" ++ [28040; 24687; 31867; 22411]%N ++ runes_of_ascii "` ,x_y_z
-, i32
-    x_y_z ``
-    ,repeat  char[007] rootA , float32 msg_type @calculatedFrom(""a	b"" )`{ , }`
-,// " ++ [27880; 37322]%N ++ runes_of_ascii "
-@calculatedFrom(""x y"" ) @tag(255
-    // @lengthOf(
-    )
-    match i8i8 as A {"""" : f32a
-,
-} , matchKey {MetaDataX Header , repeatCount `say ""hi""`
-    ,	char[ 0] MetaDataX
-@lengthOf( len
-    )`" ++ [233]%N ++ runes_of_ascii "`// @lengthOf(
-,
-}
     // `tick` ""quote"" 'q'
-    , zchar[7]pack @calculatedFrom( ""\n"" ) , }packet // packet A { u8 x, }
-uint8x {
-uint64 uint8x @calculatedFrom( ""abc""
-    )
+    @calculatedFrom(""""
+    )  repeat zchar[
+    1 ] i8i8
+    ,
+    i64
+    i64_ @calculatedFrom(
+    ""\" ++ [233]%N ++ runes_of_ascii """ )`line1
+line2`,
+float//x
+`tab	here` , @calculatedFrom( """ ++ [128512]%N ++ runes_of_ascii """ ) char[] Logon// @lengthOf(
+`` , match  leftPad as stringy {
+    0
+    :float , ""\n""
+    : // trailing space 
+Pad  , } ,
+i8i8 @lengthOf( roots )	, } root packet	i8i8 { tag
+    @lengthOf(T
+) `" ++ [28040; 24687; 31867; 22411]%N ++ runes_of_ascii "` // " ++ [128512]%N ++ runes_of_ascii " emoji
+, }")).
+Eval vm_compute in ("<<<M1432>>>" ++ check (runes_of_ascii "// top
+options // c0
+{ // c1a
+  // c1b
+LittleEndian
+    // c2
+= true ; // c5
+ArrayPrefixLenType = u64 // c8a
+  // c8b
+; // c9a
+  // c9b
+FixedStringPadFromLeft // c10
+= false // c12a
+  // c12b
+;
+    // c13
+} // c14a
+  // c14b
+packet // c15a
+  // c15b
+Quote
+    // c16
+{ // c17
+} // c18
+root
+    // c19
+packet // c20a
+  // c20b
+Order // c21a
+  // c21b
+{ // c22
+i64 Side2 , // c25
+Quote
+    // c26
+, // c27a
+  // c27b
+u32 // c28a
+  // c28b
+Px
+    // c29
+, // c30
+match // c31
+Px // c32
+as Body // c34
+{
+    // c35
+[ 119 // c37a
+  // c37b
+,
+    // c38
+147
+    // c39
+] : Quote // c42a
+  // c42b
+, } , // c45a
+  // c45b
+u16 // c46a
+  // c46b
+Flags @calculatedFrom( // c48a
+  // c48b
+""CRC32"" ) // c50
+,
+    // c51
+} // c52a
+  // c52b
+")).
+Eval vm_compute in ("<<<M140>>>" ++ check (runes_of_ascii "options  { }
+MetaData metadata  {	float32 u128 `" ++ [28040; 24687; 31867; 22411]%N ++ runes_of_ascii "` ,
+}packet
+roots {
+i64 uint8x``
+// `tick` ""quote"" 'q'
+// `tick` ""quote"" 'q'
+, @tag(  3) // packet A { u8 x, }
+@tag(
+    0123456789	) stringy @lengthOf(Header )`u8 x,` , f64 u //x
+`tab	here`,  match  u8x as u8x
+    // `tick` ""quote"" 'q'
+    { 10 : string_ , }, zchar[
+7 ]  u@calculatedFrom( // a // b
+""packet"" ) ,  @leftPad
+    ( ) repeat asx _x
+    ,zchar[ // `tick` ""quote"" 'q'
+7] uint8x
+,body
+{repeat zchar[
+3]
+    As , string Header
+,
+    char[] u, }
+, repeat Logon{
+repeat zchar[65535 ] packetx `// not a comment` , }
+, } // packet A { u8 x, }
+MetaData
+msg_type{
+f64
+    crc	`{ , }`
 , }
 ")).
-Eval vm_compute in ("<<<M429>>>" ++ check (runes_of_ascii "options
-    { Header
-    //
-    =
-    7 // trailing space 
-;
-Z9_ =true
-//
-// trailing space 
-;  f32a = false Packet
-    // c
-    = true
-    ; }
-packet matchKey { char[] Foo
-`crlf
-line` ,
-}
-    packet // " ++ [27880; 37322]%N ++ runes_of_ascii "
-Pad{ repeat  char[ 7]crc , calculatedFrom , @leftPad
-    ()
-//x
-// " ++ [128512]%N ++ runes_of_ascii " emoji
-i16 BodyLength
-, @tag(// @lengthOf(
-42 // packet A { u8 x, }
-) match rootA  as uint8x {""a	b"" :	As, }
-,
-    @calculatedFrom( """"
-    ) repeat x`" ++ [233]%N ++ runes_of_ascii "`	,  @tag(
-007 )
-    Packet Pad,
-uint64
-u8x`tab	here` ,
-    asx {packetx MetaDataX
-,
-repeat _x{ asx
-{ string rootA `line1
-line2` , // a // b
-}
-, } ,
-} // " ++ [128512]%N ++ runes_of_ascii " emoji
-, @tag( 007
-    ) i64
-i64_ ,// " ++ [27880; 37322]%N ++ runes_of_ascii "
-@lengthOf(
-    Z9_
-    ) char[] asx @lengthOf( body )
-    ,
-}
+Eval vm_compute in ("<<<M1791>>>" ++ check (runes_of_ascii "
+packet
 
-")).
-Eval vm_compute in ("<<<M4376>>>" ++ check (runes_of_ascii "packet 
-repeatCount
-	{ match  BodyLength as body	{
-
-    255  : As  ,
-
-}  ,_x @calculatedFrom(  ""x y""
-)
-`" ++ [233]%N ++ runes_of_ascii "`
-,@calculatedFrom(""1""	) // @lengthOf(
-
-repeat
-
-uint32
-
-A
-,zchar[ 00 ]x_y_z
-
-, @rightPad
-(  '0' )	@leftPad (
-' ' //x
-	)  i32
-
-    lengthOf  , repeat
-
-    // packet A { u8 x, }
-	  //	t
-i64  len
-
-`" ++ [28040; 24687; 31867; 22411]%N ++ runes_of_ascii "`  ,@calculatedFrom(
-	""packet"" )stringy
-float
-,
+    Logon 	 //x
+	{
+@calculatedFrom( 
+""a	b"" ) repeat
+options1
+	,
 @calculatedFrom(
+    ""a\\"") // c
+	char[] 
+options1 `it's`, @tag(
+4294967296 )
 
-    ""{,}"" )
-    repeat	char[ 7 ]u8x `two words`
-,
-	}	options  { 
-int
-= ""a\""b"" ;
-    Header =true
-	;
-
-trueish
-    = zchar[
-
-    00 // packet A { u8 x, }
-    	]
-    ; falsey
-=
-	false
-
-    ;
-    Pad= 
-    //	t
-// `tick` ""quote"" 'q'
-zchar[
-    1 ] }//
-
-packet
-	T
-{
-
-    }
-")).
-Eval vm_compute in ("<<<M333>>>" ++ check (runes_of_ascii "// a // b
-packet matchKey{
-@rightPad( // c
-' ' // trailing space 
-)
-@tag(007) @lengthOf( float )
-repeat	packetx ,
-    // @lengthOf(
-    @calculatedFrom(""a\""b"" )/// triple
-@tag(
-    255 )@tag( 00 )
-    Pad
-    @calculatedFrom(
-""" ++ [28040; 24687]%N ++ runes_of_ascii """ ) `{ , }` , } root
-packet
-string_
-    { repeat Logon
-//
-//x
-{ match Z9_ as float {
-""packet""
-: packetx
-    , [
-""CRC32"" , 42 // a // b
-,	00
-    // `tick` ""quote"" 'q'
-    , ""packet"" //
-] : Foo, """ ++ [28040; 24687]%N ++ runes_of_ascii """ : BodyLength , [
-""CRC32""] : x_y_z	,
-    00 :
-    packetx, 7 : rootA , } ,
-}
-, repeat
-    // c
-    metadata { u16 Logon `
-` ,
-    matchKey @calculatedFrom(
-"""" //	t
-) , repeat// c
-char[]leftPad,
-} , }
-")).
-Eval vm_compute in ("<<<M4091>>>" ++ check (runes_of_ascii "root packet Logon {
-    @tag(3)
-    // @lengthOf(
-    float64 options1 @calculatedFrom(""1""),
-    match roots as MetaDataX {
-        0123456789 : As,
-        //	t
-        [
-            0, ""1"", 0123456789, ""CRC32"", 7,
-            """ ++ [128512]%N ++ runes_of_ascii """, ""CRC32""
-        ] : x,
-    },
-    @tag(007)
-    string calculatedFrom @calculatedFrom(""a\\"") `two words`,
-    @lengthOf(uint8x)
-    trueish `{ , }`,// trailing space 
-}// @lengthOf(
-
-root packet rootA {
-    match As as As {
-        // `tick` ""quote"" 'q'
-        10 : MetaDataX,
-        ""{,}"" : body,
-    },
-    @tag(4294967296)
-    _x @lengthOf(roots),
-    packetx ``,
-}// c")).
-Eval vm_compute in ("<<<M3678>>>" ++ check (runes_of_ascii "MetaData Header {
-}
-
-root packet chars {
-    char[00] MetaDataX `u8 x,`,
-    repeat Foo stringy,
-    @lengthOf(u8x)
-    char[] Foo,
-    match Header as leftPad {
-        [""abc"", 255, """ ++ [128512]%N ++ runes_of_ascii """, """"] : charz,
-        007 : uint8x,
-        0 : asx,
-        """" : MetaDataX,
-    },
-    char[] uint8x,
-    @tag(1)
-    i8i8 {
-        x Packet `doc`,
-        zchar[4294967296] metadata @calculatedFrom(""a\\"") `" ++ [233]%N ++ runes_of_ascii "`,
-        zchar[10] crc @lengthOf(Foo) `crlf
-        line`,
-    },
-}
-
-MetaData msg_type {
-    char[] calculatedFrom `line1
-    line2`,
-}// `tick` ""quote"" 'q'")).
-Eval vm_compute in ("<<<M566>>>" ++ check (runes_of_ascii "packet rootA { } // " ++ [27880; 37322]%N ++ runes_of_ascii "
-packet MetaDataX
-    // packet A { u8 x, }
-    { @leftPad (	'0' )@calculatedFrom( ""`tick`"" ) pack @calculatedFrom( ""1""
-) ,f32a {
-a1 {lengthOf	{ repeat  uint8 charz	`crlf
-line` ,
-} , match roots	as
-    Packet {
-7 : Foo  , ""\" ++ [233]%N ++ runes_of_ascii """
-    // c
-    : metadata , ""a	b"" ://
-trueish
-// @lengthOf(
-//x
-, 0123456789 :
-Z9_,  [
-    4294967296 , ""packet""
-,
-"""" /// triple
-, 3 , """ ++ [233]%N ++ runes_of_ascii "t" ++ [233]%N ++ runes_of_ascii """ ] : pack
-    10 : a1, }	, u16 u128 // " ++ [128512]%N ++ runes_of_ascii " emoji
-`" ++ [28040; 24687; 31867; 22411]%N ++ runes_of_ascii "` , } ,}
-    ,zchar[ 00]
-_x @calculatedFrom( ""x y"" ) `doc`
-    ,  } packet
-pack { }
-")).
-Eval vm_compute in ("<<<M1109>>>" ++ check (runes_of_ascii "root packet	T {
-    @calculatedFrom( ""it's"") repeat
-    // @lengthOf(
-    u64
-    x_y_z
-,
-    u64 f32a
-    // " ++ [128512]%N ++ runes_of_ascii " emoji
-    `say ""hi""` ,
-    repeat u32 u8x//	t
-, @lengthOf( calculatedFrom) match
-u as T //x
-{1
-    :
-Pad
-    , 42 : Z9_ [ 1]
-    :  o , }	, uint8
-uint8x
-    @lengthOf(
-Logon ),  }
-// `tick` ""quote"" 'q'
-// @lengthOf(
-packet
-string_{ len,
-char[] pack @calculatedFrom( ""a\""b"" )
-,len @lengthOf(_x )
-`say ""hi""`	,@lengthOf( rootA )
-@tag( 4294967296  ) len  a1 , @tag(
-    7 ) u16 T ,} //	t")).
-Eval vm_compute in ("<<<M3941>>>" ++ check (runes_of_ascii "
-
-  packet 
-Pad{ @lengthOf(len
-	) zchar[
-
-    10
-	] int `a\`
-	,@tag(
-	007
-)
-
-    string leftPad
-@lengthOf(string_)	,
-char[
-	0123456789
-	]
-
-len
-	,	u32
-    crc	`two words` ,}root packet	u128 
-{
-
-    zchar[ 00
-]A
-
-@calculatedFrom(""\" ++ [233]%N ++ runes_of_ascii """
-) 
-`line1
-line2` ,
-
-    @tag( 10 )
-	char[]len
-`" ++ [28040; 24687; 31867; 22411]%N ++ runes_of_ascii "` , @leftPad
-
-(
-	)  @lengthOf(
-A 
-) match  crc as msg_type{7 
-:  trueish
-},
-    @leftPad
-( '0'
-    )f32a 
-@calculatedFrom(""// no comment""
-
-)// @lengthOf(
-  `crlf
-line`
-
-,  }
-
-")).
-Eval vm_compute in ("<<<M1229>>>" ++ check (runes_of_ascii "  root
-packet
-zchar
-{
-    _x { uint32
-packetx @lengthOf( pack) ,
-    char[ 10 ] MetaDataX
-`line1
-line2`, char[] leftPad
-, } ,@lengthOf(
-u8x
-    ) repeat u128 _x,	}packet leftPad{char  repeatCount
-, } // `tick` ""quote"" 'q'
-packet pack { @lengthOf(// " ++ [128512]%N ++ runes_of_ascii " emoji
-Header )
-char[ 65535 ]
-    u128	@calculatedFrom(// " ++ [128512]%N ++ runes_of_ascii " emoji
-""" ++ [233]%N ++ runes_of_ascii "t" ++ [233]%N ++ runes_of_ascii """
-)`// not a comment` , @tag( 0123456789
-)
-    @leftPad ( ' '	) @calculatedFrom( ""a	b"" )  repeat int Logon `// not a comment` ,
-    }")).
-Eval vm_compute in ("<<<M3576>>>" ++ check (runes_of_ascii "packet asx {
-    repeat falsey {
-        match lengthOf as T {
-            [""\" ++ [233]%N ++ runes_of_ascii """, 42, 1, ""// no comment"", """ ++ [28040; 24687]%N ++ runes_of_ascii """] : x,
-            4294967296 : matchKey,
-            7 : roots,
-            [
-                0123456789, ""// no comment"", 0123456789, 3, 0123456789,
-                65535, ""a\\"", ""a	b""
-            ] : metadata,
-            [65535] : asx,
-            [""a	b"", ""a\\"", 4294967296] : x,
-        },
-    },
-    @leftPad()
-    falsey T,
-}")).
-Eval vm_compute in ("<<<M4011>>>" ++ check (runes_of_ascii "
-
-  root
-	packet	u128 {
-}
-
-root
-packet
-	charz{  // packet A { u8 x, }
-	@tag( 
-7 
-)
-
-    MetaDataX
-, 
-_x
-
+    repeat Logon{	match trueish as u128
     {
 
-uint32
+""x y""
+        //	t
+	:// c
 
-    As
-	, 
-charz  , 
-}	,
-len
+i64_ , [
 
-{ int64
+    4294967296	,007, 10
 
-u128 
-,
+    ]
+    :	i8i8
 
-repeat falsey{ x_y_z @lengthOf( 
-asx
-)
+    ,
+    }  ,
+        //
+// @lengthOf(
+  T`u8 x,`  ,	repeat
+uint64
 
-//	t
-
-	// c
-  	,  // c
-  	}
-,
-    repeatCount {
-    metadata	@calculatedFrom(
-	""\n""
-) `doc` 
-,
-Logon
-	Foo 
-    // trailing space 
-      // " ++ [128512]%N ++ runes_of_ascii " emoji
-,
-    } 	 // " ++ [27880; 37322]%N ++ runes_of_ascii "
-  , 
-float 
-rootA
+T `u8 x,`
 	,
+} , }  options  // @lengthOf(
+  	{u128	= 	 // trailing space 
+'0'tag=
+	true;Packet=
+    char[ 0123456789] ; Foo = 007
 
-} , 
-} 
-	// a // b
+body
+
+    = 
+3
+;
+}packet i64_  {	}
+    //x
 ")).
-Eval vm_compute in ("<<<M3504>>>" ++ check (runes_of_ascii "packet Frame {
+Eval vm_compute in ("<<<M188>>>" ++ check (runes_of_ascii "packet asx{
+@lengthOf(	falsey
+    //	t
+    ) repeat uint64 charz , repeat // " ++ [128512]%N ++ runes_of_ascii " emoji
+char[] As `it's`
+, }packet
+u8x { @tag(
+    4294967296
+    )
+@calculatedFrom(
+""`tick`""
+) @calculatedFrom(""abc"" ) repeat // @lengthOf(
+i64 options1 `it's`, match Logon as o {  3 :Z9_ 3:T , 3// c
+:// @lengthOf(
+u128,4294967296: Z9_ , [""""
+,
+10
+    ] : body ,
+    // c
+    """ ++ [233]%N ++ runes_of_ascii "t" ++ [233]%N ++ runes_of_ascii """ : string_
+//
+/// triple
+, } , @tag( 7 )
+uint8x
+    @lengthOf(
+    //
+    Foo ), repeat T _x//
+`" ++ [233]%N ++ runes_of_ascii "`
+, }")).
+Eval vm_compute in ("<<<M1878>>>" ++ check (runes_of_ascii "packet Frame {
     u8 HK,
     u8 BK,
     u8 TK,
@@ -1729,903 +629,514 @@ Eval vm_compute in ("<<<M3504>>>" ++ check (runes_of_ascii "packet Frame {
         1 : TrlA,
     },
 }
+
 packet HdrA {
     u8 a,
 }
+
 packet HdrB {
     u16 b,
 }
+
 packet BodyA {
     u32 c,
 }
+
 packet BodyB {
     u64 d,
 }
+
 packet TrlA {
     u8 e,
 }
+
 root packet Msg {
     Frame,
     u8 x,
+}")).
+Eval vm_compute in ("<<<M347>>>" ++ check (runes_of_ascii "MetaData packetx {
+// `tick` ""quote"" 'q'
+// `tick` ""quote"" 'q'
+float64 _x , msg_type calculatedFrom // a // b
+`say ""hi""`  , metadata Foo `a\` ,falsey asx `two words` , char[	4294967296 ]calculatedFrom ,
+int32 options1 , }options {
+crc
+    =
+    '\x00' ;
+charz = ""it's"" ; BodyLength =
+    ""\" ++ [233]%N ++ runes_of_ascii """ body =//
+int8
+    ; }
+MetaData len{
+    char[ 42 ] Logon`tab	here`,	}")).
+Eval vm_compute in ("<<<M1869>>>" ++ check (runes_of_ascii "options {
 }
-")).
-Eval vm_compute in ("<<<M4505>>>" ++ check (runes_of_ascii "  options  {  i64_
-=	// a // b
 
-	""it's"" ;  Foo 
-=
-
-    ""\n""	; x_y_z =
-'\x00'; len =
-	'0' }  root
-
-    packet Packet
-	{ @tag(  0 ) match crc
-
-as
-
-A// " ++ [27880; 37322]%N ++ runes_of_ascii "
-{  [
-
-""`tick`""
-,  ""`tick`"" 
-    // @lengthOf(
-	// a // b
-	,  ""packet"" ,	""CRC32"",
-
-    // " ++ [27880; 37322]%N ++ runes_of_ascii "
-  //
-""\n""
-,""a\\""
-
-    ,
-255 
-]:T  // c
-	}// @lengthOf(
-  	, repeat float64 x
-
-, zchar[ 00// `tick` ""quote"" 'q'
-]
-chars	,
-    }//	t
-")).
-Eval vm_compute in ("<<<M3811>>>" ++ check (runes_of_ascii "
-
-  MetaData
-	x
-{ char[]  crc  ,
-    char[
-
-    7 ]
-
-float
-	,
-u64	//	t
-f32a 
-, 
+packet chars {
+    int64 i8i8 @calculatedFrom(""// no comment"") `line1
+    line2`,
+    @calculatedFrom(""`tick`"")
+    _x `" ++ [28040; 24687; 31867; 22411]%N ++ runes_of_ascii "`,
+    match float as BodyLength {
+        //
+        """ ++ [28040; 24687]%N ++ runes_of_ascii """ : x_y_z,
+        [
+            7, 10, """ ++ [233]%N ++ runes_of_ascii "t" ++ [233]%N ++ runes_of_ascii """, 1, ""x y"",
+            3
+        ] : i64_,
+    },// a // b
 }
-	packet
-int {
-    Pad /// triple
-      @lengthOf(	Pad
-)
-    `{ , }`
 
-    ,
-
-}MetaData 
-
-    /// triple
-      //
-	T
+packet uint8x {
+}// " ++ [27880; 37322]%N)).
+Eval vm_compute in ("<<<M338>>>" ++ check (runes_of_ascii "
+MetaData u8x
 {
-	A
-	i8i8 `it's`	,  u8x
-    options1 ,roots zchar // `tick` ""quote"" 'q'
+stringy x_y_z , }
+root packet MetaDataX
+{
+len
+    @calculatedFrom(""`tick`"")// trailing space 
+`tab	here`
+    ,repeat
+falsey{
+T@calculatedFrom( ""\" ++ [233]%N ++ runes_of_ascii """
+) ,/// triple
+float32 options1 `tab	here` , // a // b
+},	@lengthOf( T
+)repeat
+float64// trailing space 
+a1
+`{ , }` ,}
+")).
+Eval vm_compute in ("<<<M1542>>>" ++ check (runes_of_ascii "packet u {
+    @calculatedFrom(""CRC32"")
+    repeat zchar[1] x_y_z `crlf
+        line`,
+    @leftPad()
+    zchar[255] crc,
+}
 
-,int16 u8x , char[]a1  `say ""hi""`	,  char 
-  //	t
-    	/// triple
+root packet MetaDataX {
+    @tag(255)
+    rootA,
+}
 
-	Pad
+packet f32a {
+    @lengthOf(packetx)
+    uint8 Z9_ @calculatedFrom(""CRC32""),
+}")).
+Eval vm_compute in ("<<<M286>>>" ++ check (runes_of_ascii "options{
+} options {
+    } root packet uint8x { @leftPad ('\x00'
+    )
+    match uint8x as	pack {[ ""\n"" ,
+""a	b""
     ,
-	} 	 // a // b
-")).
-Eval vm_compute in ("<<<M1112>>>" ++ check (runes_of_ascii "packet// `tick` ""quote"" 'q'
-o {
-@lengthOf( As )
-calculatedFrom @lengthOf( matchKey )
-,// a // b
-}packet
-// packet A { u8 x, }
-// trailing space 
-options1 {match x as Foo { [
-    ""a\""b""
-, 7 ]  :	u128 """ ++ [128512]%N ++ runes_of_ascii """ :
-Packet  , }, repeat  pack len `tab	here`
-    , msg_type , @calculatedFrom(""" ++ [128512]%N ++ runes_of_ascii """ )
-char[ 10
-] zchar , } options	{ metadata =""CRC32""
-; uint8x=	false
-    ;}
-")).
-Eval vm_compute in ("<<<M828>>>" ++ check (runes_of_ascii "options {
-} //	t
-options { MetaDataX =	"""" ; int //x
-= true ;
-    int
-    =""abc"";// @lengthOf(
-repeatCount=true T= ""a\\""  ;}
-    MetaData len {	A
-int ,string T`tab	here` , repeatCount lengthOf	`it's`
-,
-    Pad
-Pad, }MetaData MetaDataX
-/// triple
+10,
+    // " ++ [27880; 37322]%N ++ runes_of_ascii "
+    255 ,
 // " ++ [27880; 37322]%N ++ runes_of_ascii "
-{
 //	t
-// trailing space 
-uint8
-    matchKey `" ++ [233]%N ++ runes_of_ascii "` ,	repeatCount crc  , char[] As
-    , }
-")).
-Eval vm_compute in ("<<<M4014>>>" ++ check (runes_of_ascii "options {
+""a	b"" , //x
+"""" ] // " ++ [27880; 37322]%N ++ runes_of_ascii "
+:
+    repeatCount
+    , // c
 }
-
-packet crc {
-    calculatedFrom {
-        zchar[7] Logon,// @lengthOf(
-        trueish rootA `say ""hi""`,
-        repeat calculatedFrom Z9_,
-        repeat MetaDataX {
-            repeat char[] int,
-        },
-    },
-    rootA @calculatedFrom(""it's""),
-    match charz as body {
-        0123456789 : chars,
-    },
-}")).
-Eval vm_compute in ("<<<M670>>>" ++ check (runes_of_ascii "
-options
-    {// " ++ [27880; 37322]%N ++ runes_of_ascii "
-i8i8	=""abc"" } root packet o{
-}packet Header { string i8i8 `" ++ [233]%N ++ runes_of_ascii "` , @lengthOf( As )
-// packet A { u8 x, }
-// " ++ [128512]%N ++ runes_of_ascii " emoji
-@calculatedFrom(
-//x
-// packet A { u8 x, }
-""" ++ [128512]%N ++ runes_of_ascii """ )@leftPad( '0'
-)	repeat	A{
-char[
-255 ] options1 , repeat char[]int
-    // " ++ [27880; 37322]%N ++ runes_of_ascii "
-    `line1
-line2`
-/// triple
-// packet A { u8 x, }
-, } ,}
-")).
-Eval vm_compute in ("<<<M1054>>>" ++ check (runes_of_ascii "root packet f32a
+    ,// " ++ [128512]%N ++ runes_of_ascii " emoji
+} 	 ")).
+Eval vm_compute in ("<<<M439>>>" ++ check (runes_of_ascii "options
 {
-u16 trueish
-, o { o
-    @calculatedFrom( """" ), roots@calculatedFrom(  ""1"" ) , // a // b
-float32
-    T , } , @calculatedFrom(""// no comment"") As , @leftPad(
-'\x00'
-)@lengthOf( uint8x ) @lengthOf( lengthOf ) repeatCount@calculatedFrom(
-    """ ++ [128512]%N ++ runes_of_ascii """ )
-, @calculatedFrom(
-""1""  )repeat
-x
-,
-}")).
-Eval vm_compute in ("<<<M1540>>>" ++ check (runes_of_ascii "root packet Foo // " ++ [128512]%N ++ runes_of_ascii " emoji
-{ } options {
-    // a // b
-    tag // `tick` ""quote"" 'q'
-= //	t
-""""
-    ; u8x = zchar[0  ] }
-MetaData
-    int {zchar[ 10]
-lengthOf	`` , i64 i64 u8x`// not a comment` ,MetaDataX pack// `tick` ""quote"" 'q'
-`crlf
-line`
-, Logon charz `crlf
-line`
-    ,
-    // a // b
-    }
-")).
-Eval vm_compute in ("<<<M1490>>>" ++ check (runes_of_ascii "root packet Foo // " ++ [128512]%N ++ runes_of_ascii " emoji
-{ } options {
-    // a // b
-    tag // `tick` ""quote"" 'q'
-= //	t
-""""
-    ; u8x = zchar[0  ] } }
-MetaData
-    int {zchar[ 10]
-lengthOf	`` , i64 u8x`// not a comment` ,MetaDataX pack// `tick` ""quote"" 'q'
-`crlf
-line`
-, Logon charz `crlf
-line`
-    ,
-    // a // b
-    }
-")).
-Eval vm_compute in ("<<<M1416>>>" ++ check (runes_of_ascii "root Foo packet // " ++ [128512]%N ++ runes_of_ascii " emoji
-{ } options {
-    // a // b
-    tag // `tick` ""quote"" 'q'
-= //	t
-""""
-    ; u8x = zchar[0  ] }
-MetaData
-    int {zchar[ 10]
-lengthOf	`` , i64 u8x`// not a comment` ,MetaDataX pack// `tick` ""quote"" 'q'
-`crlf
-line`
-, Logon charz `crlf
-line`
-    ,
-    // a // b
-    }
-")).
-Eval vm_compute in ("<<<M1576>>>" ++ check (runes_of_ascii "root packet Foo // " ++ [128512]%N ++ runes_of_ascii " emoji
-{ } options {
-    // a // b
-    tag // `tick` ""quote"" 'q'
-= //	t
-""""
-    ; u8x = zchar[0  ] }
-MetaData
-    int {zchar[ 10]
-lengthOf	`` , i64 u8x`// not a comment` ,MetaDataX pack// `tick` ""quote"" 'q'
-`crlf
-line`
-Logon , charz `crlf
-line`
-    ,
-    // a // b
-    }
-")).
-Eval vm_compute in ("<<<M4326>>>" ++ check (runes_of_ascii "packet trueish {
-    // trailing space 
-    zchar[0] o @lengthOf(float),
-    @tag(10)
-    stringy {
-        zchar[65535] matchKey,
-    },
-    @lengthOf(asx)
-    zchar[10] string_ @calculatedFrom("""") `it's`,
-}
-
-options {
-    rootA = ""1"";
-}
-
-options {
-    body = u32
-    repeatCount = '\x00'
-}")).
-Eval vm_compute in ("<<<M1414>>>" ++ check (runes_of_ascii "root  Foo // " ++ [128512]%N ++ runes_of_ascii " emoji
-{ } options {
-    // a // b
-    tag // `tick` ""quote"" 'q'
-= //	t
-""""
-    ; u8x = zchar[0  ] }
-MetaData
-    int {zchar[ 10]
-lengthOf	`` , i64 u8x`// not a comment` ,MetaDataX pack// `tick` ""quote"" 'q'
-`crlf
-line`
-, Logon charz `crlf
-line`
-    ,
-    // a // b
-    }
-")).
-Eval vm_compute in ("<<<M559>>>" ++ check (runes_of_ascii "packet
-msg_type	{ charz
-`` , Logon @lengthOf( As
-    ) // " ++ [128512]%N ++ runes_of_ascii " emoji
-, zchar[ 10]  Packet ,@rightPad (
-' ' // " ++ [128512]%N ++ runes_of_ascii " emoji
-)
-repeat As{char[ 007]
-int@lengthOf( roots//	t
-),
-    int64
-u8x `" ++ [233]%N ++ runes_of_ascii "` ,zchar
-    // `tick` ""quote"" 'q'
-    @calculatedFrom( """ ++ [233]%N ++ runes_of_ascii "t" ++ [233]%N ++ runes_of_ascii """
-    ) , } // a // b
-,/// triple
-}
-")).
-Eval vm_compute in ("<<<M408>>>" ++ check (runes_of_ascii "root packet x  {
-u64 stringy
-`it's` , @tag( 1 )
-    body, @tag(0 ) string string_ , repeat/// triple
-As
-// a // b
-//x
-{ string pack `line1
-line2` , options1 @calculatedFrom(""// no comment"" )`say ""hi""`
-,
-} , repeat leftPad `line1
-line2` // " ++ [27880; 37322]%N ++ runes_of_ascii "
-, char[] msg_type , }
-")).
-Eval vm_compute in ("<<<M1606>>>" ++ check (runes_of_ascii "root packet Foo // " ++ [128512]%N ++ runes_of_ascii " emoji
-{ } options {
-    // a // b
-    tag // `tick` ""quote"" 'q'
-= //	t
-""""
-    ; u8x = zchar[0  ] }
-MetaData
-    int {zchar[ 10]
-lengthOf	`` , i64 u8x`// not a comment` ,MetaDataX pack// `tick` ""quote"" 'q'
-`crlf
-line`
-, Logon charz ")).
-Eval vm_compute in ("<<<M3596>>>" ++ check (runes_of_ascii "root packet Foo {
-}
-
-options {
-    // a // b
-    tag = false;
-    u8x = zchar[0]
-}
-
-MetaData int {
-    zchar[10] lengthOf ``,
-    i64 u8x `// not a comment`,
-    MetaDataX pack `crlf
-    line`,
-    Logon charz `crlf
-    line`,
-    // a // b
-}")).
-Eval vm_compute in ("<<<M1314>>>" ++ check (runes_of_ascii "// " ++ [27880; 37322]%N ++ runes_of_ascii "
-root packet rootA {  @calculatedFrom( ""\" ++ [233]%N ++ runes_of_ascii """
-) uint32 calculatedFrom ,
-    // trailing space 
-    }  MetaData
-stringy{ f32a charz ,// packet A { u8 x, }
-uint32 repeatCount
-    , i64_ u128 `say ""hi""`,
-    string calculatedFrom , }
-")).
-Eval vm_compute in ("<<<M2351>>>" ++ check (runes_of_ascii "MetaData Packet { }packet	asx  { @lengthOf( asx) falsey`crlf
-line`
-,
-    }
-    packet x	{uint32// @lengthOf(
-rootA	,u32 options1 `say ""hi""` , @tag( 7
-    )// packet A { u8 x, }
-msg_type @lengthOf( @lengthOf(
-stringy	)	, }
-
-")).
-Eval vm_compute in ("<<<M2228>>>" ++ check (runes_of_ascii "MetaData Packet { ""CRC32""packet	asx  { @lengthOf( asx) falsey`crlf
-line`
-,
-    }
-    packet x	{uint32// @lengthOf(
-rootA	,u32 options1 `say ""hi""` , @tag( 7
-    )// packet A { u8 x, }
-msg_type @lengthOf(
-stringy	)	, }
-
-")).
-Eval vm_compute in ("<<<M2291>>>" ++ check (runes_of_ascii "MetaData Packet { }packet	asx  { @lengthOf( asx) falsey`crlf
-line`
-,
-    }
-    packet x	{ {uint32// @lengthOf(
-rootA	,u32 options1 `say ""hi""` , @tag( 7
-    )// packet A { u8 x, }
-msg_type @lengthOf(
-stringy	)	, }
-
-")).
-Eval vm_compute in ("<<<M1383>>>" ++ check (runes_of_ascii "root  packet packetx
-{ trueish
-    @lengthOf(  repeatCount) , @lengthOf(
-    u
-) // `tick` ""quote"" 'q'
-Packet u // trailing space 
-`" ++ [233]%N ++ runes_of_ascii "`
-    , }
-    options
-    {
-leftPad =
-    0123456789; u = 65535 ; } // " ++ [128512]%N ++ runes_of_ascii " emoji")).
-Eval vm_compute in ("<<<M2393>>>" ++ check (runes_of_ascii "MetaData Packet { }packet	asx  { @lengthOf( a" ++ [769]%N ++ runes_of_ascii "b) falsey`crlf
-line`
-,
-    }
-    packet x	{uint32// @lengthOf(
-rootA	,u32 options1 `say ""hi""` , @tag( 7
-    )// packet A { u8 x, }
-msg_type @lengthOf(
-stringy	)	, }
-
-")).
-Eval vm_compute in ("<<<M2310>>>" ++ check (runes_of_ascii "MetaData Packet { }packet	asx  { @lengthOf( asx) falsey`crlf
-line`
-,
-    }
-    packet x	{uint32// @lengthOf(
-rootA	, options1 `say ""hi""` , @tag( 7
-    )// packet A { u8 x, }
-msg_type @lengthOf(
-stringy	)	, }
-
-")).
-Eval vm_compute in ("<<<M3501>>>" ++ check (runes_of_ascii "packet Logon {
-    string user,
-}
-root packet Frame {
-    u8 K,
-    match K as Body {
-        1 : Logon,
-        2 : Logout,
-    },
-    Tail,
-}
-packet Logout {
-    u16 reason,
-}
-packet Tail {
-    u32 crc,
-}
-")).
-Eval vm_compute in ("<<<M166>>>" ++ check (runes_of_ascii "packet u128 {
-@rightPad (
-    ' '
-    //x
-    )// c
-Packet , f64
-//
-// @lengthOf(
-Pad `it's` , }packet i64_{ } packet trueish { @leftPad	( '\x00')leftPad
-@calculatedFrom( // " ++ [27880; 37322]%N ++ runes_of_ascii "
-""`tick`"" ) `u8 x,` , }
-")).
-Eval vm_compute in ("<<<M315>>>" ++ check (runes_of_ascii "packet// " ++ [27880; 37322]%N ++ runes_of_ascii "
-trueish { match f32a
-as stringy	{ """ ++ [28040; 24687]%N ++ runes_of_ascii """ : _x ,
-1 : //x
-stringy
-    ,
-    65535 :u8x 65535: // trailing space 
-asx
+matchKey = 42/// triple
+x='0' ;
 // packet A { u8 x, }
+//
+charz
+repeat
+// packet A { u8 x, }
+// trailing space 
+true  ; } MetaData BodyLength
+{
+uint8
+pack,zchar[ 1]float ,  float32 x_y_z `` ,u32
+_x,i16 body  , }
+")).
+Eval vm_compute in ("<<<M467>>>" ++ check (runes_of_ascii "options
+{
+matchKey = 42/// triple
+x='0' ;
+// packet A { u8 x, }
+//
+charz
+=
+// packet A { u8 x, }
+// trailing space 
+true  ; } MetaData BodyLength
+{ {
+uint8
+pack,zchar[ 1]float ,  float32 x_y_z `` ,u32
+_x,i16 body  , }
+")).
+Eval vm_compute in ("<<<M582>>>" ++ check (runes_of_ascii "options
+{
+matchKey = 42/// triple
+x='0' ;
+// packet A { u8 x, }
+//
+charz
+=
+// packet A { u8 x, }
+// trailing space 
+true  ; } MetaData BodyLength
+{
+uint8
+pack,zchar[ 1]float ,  float32 ~x_y_z `` ,u32
+_x,i16 body  , }
+")).
+Eval vm_compute in ("<<<M528>>>" ++ check (runes_of_ascii "options
+{
+matchKey = 42/// triple
+x='0' ;
+// packet A { u8 x, }
+//
+charz
+=
+// packet A { u8 x, }
+// trailing space 
+true  ; } MetaData BodyLength
+{
+uint8
+pack,zchar[ 1]float ,  float32 x_y_z `` u32,
+_x,i16 body  , }
+")).
+Eval vm_compute in ("<<<M531>>>" ++ check (runes_of_ascii "options
+{
+matchKey = 42/// triple
+x='0' ;
+// packet A { u8 x, }
+//
+charz
+=
+// packet A { u8 x, }
+// trailing space 
+true  ; } MetaData BodyLength
+{
+uint8
+pack,zchar[ 1]float ,  float32 x_y_z `` ,
+_x,i16 body  , }
+")).
+Eval vm_compute in ("<<<M246>>>" ++ check (runes_of_ascii "packet a1 {//	t
+} root packet float {char[] pack ,
+@tag(
+65535 ) u16 string_
+// trailing space 
 // c
-,  }
-    // packet A { u8 x, }
-    , }")).
-Eval vm_compute in ("<<<M3486>>>" ++ check (runes_of_ascii "options {
+, repeat rootA	{
+// `tick` ""quote"" 'q'
+//x
+repeat
+    asx charz
+`a\`, }
+    // `tick` ""quote"" 'q'
+    ,}
+")).
+Eval vm_compute in ("<<<M1711>>>" ++ check (runes_of_ascii "options {
     FixedStringPadChar = '0';
 }
+
 packet Q {
     zchar[4] z,
-    @rightPad('\x00') char[3] n,
+    @rightPad('\x00')
+    char[3] n,
     char[5] d,
 }
+
 root packet R {
     Q,
     zchar[8] top,
     repeat zchar[2] zs,
+}")).
+Eval vm_compute in ("<<<M670>>>" ++ check (runes_of_ascii "// c
+packet i64_ {	char[] calculatedFrom , } packet
+trueish  {@calculatedFrom(
+""a\\"" ) o { { i32 falsey@lengthOf( uint8x ),
+} , } // `tick` ""quote"" 'q'
+options {// c
+Z9_ = ' '//
 }
 ")).
-Eval vm_compute in ("<<<M4456>>>" ++ check (runes_of_ascii "MetaData roots {
+Eval vm_compute in ("<<<M710>>>" ++ check (runes_of_ascii "// c
+packet i64_ {	char[] calculatedFrom , } packet
+trueish  {@calculatedFrom(
+""a\\"" ) o { i32 falsey@lengthOf( uint8x )
+} , } // `tick` ""quote"" 'q'
+options {// c
+Z9_ = ' '//
+}
+")).
+Eval vm_compute in ("<<<M716>>>" ++ check (runes_of_ascii "// c
+packet i64_ {	char[] calculatedFrom , } packet
+trueish  {@calculatedFrom(
+""a\\"" ) o { i32 falsey@lengthOf( uint8x ),
+} , } // `tick` ""quote"" 'q'
+options {// c
+Z9_")).
+Eval vm_compute in ("<<<M1825>>>" ++ check (runes_of_ascii "packet A {
+    u16 len @lengthOf(body) `a
+            b
+          c`,
+    u32 crc @calculatedFrom(""CRC32"") `a
+            b
+          c`,
+    string body,
+}")).
+Eval vm_compute in ("<<<M215>>>" ++ check (runes_of_ascii "MetaData tag { zchar[ // a // b
+007 ]BodyLength ``
+    // packet A { u8 x, }
+    , } root packet MetaDataX {
+string_
+    @lengthOf(
+Header) ,}
+")).
+Eval vm_compute in ("<<<M1496>>>" ++ check (runes_of_ascii "
+
+  options 
+{ 
+roots  //x
+
+	=
+
+""packet""
+;
+
+    len
+
+=
+
+    0;
+crc
+=
+
+    zchar[ 65535
+/// triple
+// " ++ [128512]%N ++ runes_of_ascii " emoji
+] //x
+  ; 
 }
 
-MetaData stringy {
-    Logon leftPad `crlf
-    line`,
-    char[] metadata `{ , }`,
-    falsey pack `" ++ [233]%N ++ runes_of_ascii "`,
-    i8 repeatCount,
-}
-
-options {
-    matchKey = ' '
-}")).
-Eval vm_compute in ("<<<M3851>>>" ++ check (runes_of_ascii "packet msg_type {
-    match leftPad as float {
-        3 : repeatCount,
-        [0123456789, 3, 10, 65535, 1] : Header,
-        ""{,}"" : packetx,
-        0 : _x,
-    },
-}")).
-Eval vm_compute in ("<<<M1051>>>" ++ check (runes_of_ascii "MetaData leftPad {
-    string int
-// c
-// " ++ [27880; 37322]%N ++ runes_of_ascii "
-`tab	here` // c
-, char[] f32a`u8 x,` ,zchar[ // @lengthOf(
-255 ]
-    uint8x
-, i32 x
-    `crlf
-line` ,// c
-i8 asx	,}
 ")).
-Eval vm_compute in ("<<<M3698>>>" ++ check (runes_of_ascii "packet int {
-    match roots as u8x {
-        7 : packetx,
-        0 : As,
-        ""packet"" : a1,
-        ""packet"" : float,
-    },
-    Z9_ @lengthOf(u128),
-}")).
-Eval vm_compute in ("<<<M4024>>>" ++ check (runes_of_ascii "packet
-crc{ }
-options 
-{
-a1
-    = 
-char[
-	3
-    ]	;}root
-packet
-Pad
-{}
-    packet crc { int32 
-zchar  // @lengthOf(
-  ,}
-packet
-    pack
-    {}
-
-")).
-Eval vm_compute in ("<<<M418>>>" ++ check (runes_of_ascii "  packet repeatCount
-    {
-    } packet
-charz
-{ @calculatedFrom( ""// no comment"" ) int32	msg_type
-@lengthOf(f32a
-    /// triple
-    ) , } // " ++ [27880; 37322]%N)).
-Eval vm_compute in ("<<<M977>>>" ++ check (runes_of_ascii "MetaData As
-    { u repeatCount//	t
-, zchar[ 0123456789] x//
-`two words`
-, float asx
-, falsey
-lengthOf  , char[] leftPad `crlf
-line` , }")).
-Eval vm_compute in ("<<<M3663>>>" ++ check (runes_of_ascii "packet	Logon 
-	// c
-    	{  @tag(
-
-    42
-    ) @rightPad 
-(
-' '
-) @leftPad ( )repeat
-	trueish
-
-{
-    string
-
-    T,
-	}	,
-    }
-")).
-Eval vm_compute in ("<<<M1723>>>" ++ check (runes_of_ascii "root '1'packet /// triple
-rootA {	i32
-MetaDataX@calculatedFrom( ""CRC32"" ) `line1
-line2` , } MetaData BodyLength {
-u8
-rootA, } // c")).
-Eval vm_compute in ("<<<M1729>>>" ++ check (runes_of_ascii "root packet /// triple
-rootA {	i32
-MetaDataX@calculatedFrom( ""CRC32"" ) `line1
-line2` , } MetaData BodyLength {
-u8
-'rootA, } // c")).
-Eval vm_compute in ("<<<M1677>>>" ++ check (runes_of_ascii "root packet /// triple
-rootA {	i32
-MetaDataX@calculatedFrom( ""CRC32"" ) `line1
-line2` ,  MetaData BodyLength {
-u8
-rootA, } // c")).
-Eval vm_compute in ("<<<M1890>>>" ++ check (runes_of_ascii "packet
-    Pad // a // b
-{ i8i8 @calculatedFrom( ""a	b"") `u8 x,` ,
-} options{ float// " ++ [128512]%N ++ runes_of_ascii " emoji
-= f64 i64_
-=//	t
-@leftpad00 }
-")).
-Eval vm_compute in ("<<<M3864>>>" ++ check (runes_of_ascii "
-
-  packet
+Eval vm_compute in ("<<<M1975>>>" ++ check (runes_of_ascii "packet
     Logon
+
     {
+@tag(
+	42 
+) @rightPad
 
-@tag(	42
-) @rightPad(	' '  )
-@leftPad
-(  ) repeat trueish	{
+(
 
-    string T , } 
+' '
+
+    // c
+	  ) 
+@leftPad 
+( )  repeat trueish
+{
+
+string T
 ,
 	} 
-// c
- 
-")).
-Eval vm_compute in ("<<<M148>>>" ++ check (runes_of_ascii "packet i8i8 //x
-{int16 // trailing space 
-stringy // " ++ [128512]%N ++ runes_of_ascii " emoji
-@calculatedFrom(
-""// no comment"" ),
-} packet
-_x {
-    }
-")).
-Eval vm_compute in ("<<<M1887>>>" ++ check (runes_of_ascii "packet
-    Pad // a // b
-{ ~ i8i8 @calculatedFrom( ""a	b"") `u8 x,` ,
-} options{ float// " ++ [128512]%N ++ runes_of_ascii " emoji
-= f64 i64_
-=//	t
-00 }
-")).
-Eval vm_compute in ("<<<M792>>>" ++ check (runes_of_ascii "packet i8i8 { @tag(00)@lengthOf( // @lengthOf(
-chars ) @leftPad ( '\x00' ) A
-@calculatedFrom(	""it's"" )	`{ , }` ,	}
-")).
-Eval vm_compute in ("<<<M1820>>>" ++ check (runes_of_ascii "packet
-    Pad // a // b
-{ i8i8 @calculatedFrom( ""a	b"") `u8 x,` 
-} options{ float// " ++ [128512]%N ++ runes_of_ascii " emoji
-= f64 i64_
-=//	t
-00 }
-")).
-Eval vm_compute in ("<<<M1038>>>" ++ check (runes_of_ascii "
-packet BodyLength { @tag(3	) int16
-    BodyLength , zchar[
-1
-]
-    body @calculatedFrom( ""`tick`""
-)
-    , }
-")).
-Eval vm_compute in ("<<<M724>>>" ++ check (runes_of_ascii "MetaData float {
-tag
-    body `" ++ [233]%N ++ runes_of_ascii "`
-,f64 i8i8 `{ , }` , f32 chars `two words` , Pad
-i64_ // @lengthOf(
-,} //	t")).
-Eval vm_compute in ("<<<M3979>>>" ++ check (runes_of_ascii "packet Logon {
-    @tag(42)
-    @rightPad(' ')
-    @leftPad()
-    repeat trueish {
-        string T,
+,	}")).
+Eval vm_compute in ("<<<M648>>>" ++ check (runes_of_ascii "MetaData
+    // trailing space 
+    matchKey
+{ u64 chars // a // b
+,char[] lengthOf `// not a comment`
+    , //	t
+@tag}")).
+Eval vm_compute in ("<<<M645>>>" ++ check (runes_of_ascii "MetaData
+    // trailing space 
+    match?Key
+{ u64 chars // a // b
+,char[] lengthOf `// not a comment`
+    , //	t
+}")).
+Eval vm_compute in ("<<<M1966>>>" ++ check (runes_of_ascii "
+
+  packet
+	o
+{
+@tag(
+42)	repeat  x
+
+    { 
+char[ 0123456789
+
+] 
+i64_
+	    // c
+  ,}	,
+    }options
+
+{
+
+    } ")).
+Eval vm_compute in ("<<<M960>>>" ++ check (runes_of_ascii "packet A {
+    u16 len @lengthOf(body) `tab
+	x`,
+    u32 crc @calculatedFrom(""CRC32"") `tab
+	x`,
+    string body,
+}")).
+Eval vm_compute in ("<<<M972>>>" ++ check (runes_of_ascii "packet A {
+    match k as n {
+        ""\
+"" : B,
+        [""\
+"", 1] : C,
+        [1,2,3,4,5,""\
+""] : D,
     },
 }")).
-Eval vm_compute in ("<<<M4331>>>" ++ check (runes_of_ascii "options {
-    repeatCount = u16;
-    float = ' '
-    Logon = string;
-    packetx = 3//
-    a1 = zchar[7]
+Eval vm_compute in ("<<<M635>>>" ++ check (runes_of_ascii "MetaData
+    // trailing space 
+    matchKey
+{ u64 chars // a // b
+,char[] lengthOf `// not a comment`")).
+Eval vm_compute in ("<<<M1270>>>" ++ check (runes_of_ascii "packet calculatedFrom { @tag( 4294967296 ) u msg_type ,
+// c
+char[ 3 ] crc @lengthOf( len ) `u8 x,` , }")).
+Eval vm_compute in ("<<<M894>>>" ++ check (runes_of_ascii "packet A {
+  match k as n {
+    [1, ""bb"", 007, ""d"", 5, ""f"", 7, ""h"", 9, ""j"", 11] : B,
+    2 : C
+  },
 }")).
-Eval vm_compute in ("<<<M3339>>>" ++ check (runes_of_ascii "packet // c
-calculatedFrom { @tag( 4294967296 ) u msg_type , char[ 3 ] crc @lengthOf( len ) `u8 x,` , }")).
-Eval vm_compute in ("<<<M3371>>>" ++ check (runes_of_ascii "packet calculatedFrom { @tag( 4294967296 ) u msg_type , char[ 3 ] crc @lengthOf( len ) `u8 x,` // c
-, }")).
-Eval vm_compute in ("<<<M4346>>>" ++ check (runes_of_ascii "packet
-A
+Eval vm_compute in ("<<<M854>>>" ++ check (runes_of_ascii "packet A {
+  match k as n {
+    [""a"", ""bb"", ""c c"", ""d"", ""e"", ""f"", ""g"", ""h""] : B
+    2 : C
+  },
+}")).
+Eval vm_compute in ("<<<M1148>>>" ++ check (runes_of_ascii "packet Logon { @tag( 42 ) @rightPad ( ' ' ) // c
+@leftPad ( ) repeat trueish { string T , } , }")).
+Eval vm_compute in ("<<<M885>>>" ++ check (runes_of_ascii "packet A {
+  match k as n {
+    [1, 22, ""c c"", 4, 5, ""f"", 7, 8, ""i"", 10] : B,
+    2 : C
+  },
+}")).
+Eval vm_compute in ("<<<M855>>>" ++ check (runes_of_ascii "packet A {
+  match k as n {
+    [1, ""bb"", 007, ""d"", 5, ""f"", 7, ""h""] : B,
+    2 : C
+  },
+}")).
+Eval vm_compute in ("<<<M1859>>>" ++ check (runes_of_ascii "
+packet 
+A  {match	k
+as
+n
+{ 
+[ ""a"" ,	""bb""
+,	007
+	,  ""d"",
+""e"" ]
+	: B
+	2 :  C
+	} , }
+")).
+Eval vm_compute in ("<<<M1872>>>" ++ check (runes_of_ascii "
+
+  packet
+f32a {  //
+  @tag(
+    1  )
+Z9_ chars
+
+,	chars  // " ++ [128512]%N ++ runes_of_ascii " emoji
+`
+`
+, 
+}
+")).
+Eval vm_compute in ("<<<M1231>>>" ++ check (runes_of_ascii "packet o { @tag( 42 ) repeat x { char[ 0123456789 ]
+// c
+i64_ , } , } options { }")).
+Eval vm_compute in ("<<<M125>>>" ++ check (runes_of_ascii "root
+packet x_y_z{
+// a // b
+// packet A { u8 x, }
+repeat falsey // " ++ [27880; 37322]%N ++ runes_of_ascii "
+`" ++ [233]%N ++ runes_of_ascii "` , }")).
+Eval vm_compute in ("<<<M625>>>" ++ check (runes_of_ascii "MetaData
+    // trailing space 
+    matchKey
+{ u64 chars // a // b
+,char[]")).
+Eval vm_compute in ("<<<M812>>>" ++ check (runes_of_ascii "packet A {
+  match k as n {
+    [1, 22, 007, 4, 5] : B,
+    2 : C
+  },
+}")).
+Eval vm_compute in ("<<<M1313>>>" ++ check (runes_of_ascii "MetaData _x { // c
+zchar[ 4294967296 ] lengthOf `// not a comment` , }")).
+Eval vm_compute in ("<<<M1292>>>" ++ check (runes_of_ascii "// top
+packet
+    // c0
+lengthOf
+    // c1
+{
+    // c2
+}
+    // c3
+")).
+Eval vm_compute in ("<<<M784>>>" ++ check (runes_of_ascii "packet A {
+  match k as n {
+    [""a"", 22] : B
+    2 : C
+  },
+}")).
+Eval vm_compute in ("<<<M1758>>>" ++ check (runes_of_ascii "packet A {
+    match k as n {
+        [1, 2] : B,
+    },
+}")).
+Eval vm_compute in ("<<<M1078>>>" ++ check (runes_of_ascii "packet A { u8 x, } // a
+// b
+packet B {} // c
+// d")).
+Eval vm_compute in ("<<<M76>>>" ++ check (runes_of_ascii "options { repeatCount= 00 ; }
+// " ++ [128512]%N ++ runes_of_ascii " emoji
+")).
+Eval vm_compute in ("<<<M1888>>>" ++ check (runes_of_ascii "packet
+
+    lengthOf
     {
-Inner  {	u8 x	`a
-    b
-  c`,  Deep 
-{ u8
-y `a
-    b
-  c`
-
-    ,
-}
-
-    ,  }
-,}")).
-Eval vm_compute in ("<<<M2985>>>" ++ check (runes_of_ascii "packet A {
-  match k as n {
-    [1, 22, ""c c"", 4, 5, ""f"", 7, 8, ""i"", 10, 11] : B
-    2 : C
-  },
+    }  // c")).
+Eval vm_compute in ("<<<M1516>>>" ++ check (runes_of_ascii "packet A {
+    u8 x `tab
+    	x`,
 }")).
-Eval vm_compute in ("<<<M3214>>>" ++ check (runes_of_ascii "// c
-packet Logon { @tag( 42 ) @rightPad ( ' ' ) @leftPad ( ) repeat trueish { string T , } , }")).
-Eval vm_compute in ("<<<M3247>>>" ++ check (runes_of_ascii "packet Logon { @tag( 42 ) @rightPad ( ' ' ) @leftPad ( ) repeat trueish {
+Eval vm_compute in ("<<<M933>>>" ++ check (runes_of_ascii "root packet A {
+    u8 x `
+`,
+}")).
+Eval vm_compute in ("<<<M1076>>>" ++ check (runes_of_ascii "MetaData M {
+}// c
+options {}")).
+Eval vm_compute in ("<<<M1303>>>" ++ check (runes_of_ascii "packet lengthOf { }
 // c
-string T , } , }")).
-Eval vm_compute in ("<<<M3702>>>" ++ check (runes_of_ascii "root packet lengthOf {
-    @tag(4294967296)
-    @calculatedFrom(""" ++ [128512]%N ++ runes_of_ascii """)
-    i32 msg_type `a\`,
-}")).
-Eval vm_compute in ("<<<M1407>>>" ++ check (runes_of_ascii "root packet SimpleMessage {
-    uint16 MsgType `" ++ [28040; 24687; 31867; 22411]%N ++ runes_of_ascii "`,
-    string JsonBody `Json" ++ [23383; 31526; 20018; 28040; 24687; 20307]%N ++ runes_of_ascii "`,
-}")).
-Eval vm_compute in ("<<<M1969>>>" ++ check (runes_of_ascii "root
-packet `" ++ [28040; 24687; 31867; 22411]%N ++ runes_of_ascii "`
-    { f32a @calculatedFrom( """ ++ [233]%N ++ runes_of_ascii "t" ++ [233]%N ++ runes_of_ascii """ )
-    `say ""hi""`, lengthOf `` ,  }")).
-Eval vm_compute in ("<<<M4142>>>" ++ check (runes_of_ascii "  packet
-
-A { match k
-	as n  { 
-[  ""a""
-,22
-
-    ,	""c c""	,  4,	""e""  ]:	B 2 
-:C },
-} ")).
-Eval vm_compute in ("<<<M1979>>>" ++ check (runes_of_ascii "root
-packet crc
-    { root @calculatedFrom( """ ++ [233]%N ++ runes_of_ascii "t" ++ [233]%N ++ runes_of_ascii """ )
-    `say ""hi""`, lengthOf `` ,  }")).
-Eval vm_compute in ("<<<M3477>>>" ++ check (runes_of_ascii "packet order_item {
-    u8 a,
-}
-root packet new_order {
-    order_item,
-    u8 x,
-}
 ")).
-Eval vm_compute in ("<<<M256>>>" ++ check (runes_of_ascii "packet matchKey {
-@tag( 7
-    ) @leftPad
-    //x
-    ( '\x00')
-    string_ ,	} 	 ")).
-Eval vm_compute in ("<<<M3314>>>" ++ check (runes_of_ascii "packet o { @tag( 42 ) repeat x { char[ 0123456789 // c
-] i64_ , } , } options { }")).
-Eval vm_compute in ("<<<M2916>>>" ++ check (runes_of_ascii "packet A {
-  match k as n {
-    [1, ""bb"", 007, ""d"", 5, ""f""] : B
-    2 : C
-  },
-}")).
-Eval vm_compute in ("<<<M2920>>>" ++ check (runes_of_ascii "packet A {
-  match k as n {
-    [1, 22, ""c c"", 4, 5, ""f""] : B
-    2 : C
-  },
-}")).
-Eval vm_compute in ("<<<M2988>>>" ++ check (runes_of_ascii "packet A { Inner { match k as n { [1,22,007,4,5,66,7,8,9,10,11] : B, }, }, }")).
-Eval vm_compute in ("<<<M689>>>" ++ check (runes_of_ascii "MetaData i64_ { options1
-x	`crlf
-line`,} packet u { } // trailing space ")).
-Eval vm_compute in ("<<<M2899>>>" ++ check (runes_of_ascii "packet A {
-  match k as n {
-    [1, 22, 007, 4, 5] : B
-    2 : C
-  },
-}")).
-Eval vm_compute in ("<<<M3406>>>" ++ check (runes_of_ascii "MetaData _x { zchar[ 4294967296 ]
-// c
-lengthOf `// not a comment` , }")).
-Eval vm_compute in ("<<<M1834>>>" ++ check (runes_of_ascii "packet
-    Pad // a // b
-{ i8i8 @calculatedFrom( ""a	b"") `u8 x,` ,
-}")).
-Eval vm_compute in ("<<<M2717>>>" ++ check (runes_of_ascii "@leftPad options [ `doc` uint64 root { zchar[ { MetaData ; MetaData")).
-Eval vm_compute in ("<<<M388>>>" ++ check (runes_of_ascii "MetaData calculatedFrom  { // a // b
-u64
-A, float32 u8x ,}
-// " ++ [27880; 37322]%N ++ runes_of_ascii "
-")).
-Eval vm_compute in ("<<<M2160>>>" ++ check (runes_of_ascii "root
-    // `tick` ""quote"" 'q'
-    i32 As { trueish Packet , }
-")).
-Eval vm_compute in ("<<<M2856>>>" ++ check (runes_of_ascii "zchar[ @lengthOf( int8 u64 f32 : float64 ( char[] @tag( char[")).
-Eval vm_compute in ("<<<M3462>>>" ++ check (runes_of_ascii "root packet P {
-    repeat string ss,
-    repeat u16 ns,
-}
-")).
-Eval vm_compute in ("<<<M1949>>>" ++ check (runes_of_ascii "
-packet	As { @calculatedFrom(//x
-""{,}""	)lengthOf # , } 	 ")).
-Eval vm_compute in ("<<<M632>>>" ++ check (runes_of_ascii "MetaData charz {
-    char[7] body `tab	here` // " ++ [27880; 37322]%N ++ runes_of_ascii "
-, }
-")).
-Eval vm_compute in ("<<<M1956>>>" ++ check (runes_of_ascii "
-packet	As { @calculatedFrom(//x
-""{,}""	)caf" ++ [233]%N ++ runes_of_ascii "_1 , } 	 ")).
-Eval vm_compute in ("<<<M1915>>>" ++ check (runes_of_ascii "
-packet	As { @calculatedFrom(//x
-	)lengthOf , } 	 ")).
-Eval vm_compute in ("<<<M2586>>>" ++ check (runes_of_ascii "packet A { x @lengthOf(y) @calculatedFrom(""c""), }")).
-Eval vm_compute in ("<<<M1762>>>" ++ check (runes_of_ascii "options { }options {  } } // `tick` ""quote"" 'q'")).
-Eval vm_compute in ("<<<M1777>>>" ++ check (runes_of_ascii "?options { }options {  } // `tick` ""quote"" 'q'")).
-Eval vm_compute in ("<<<M4504>>>" ++ check (runes_of_ascii "packet packetx {
-    repeat zchar[007] Foo,
-}")).
-Eval vm_compute in ("<<<M2851>>>" ++ check (runes_of_ascii ", string [ f32 = repeatCount f64 { MetaData")).
-Eval vm_compute in ("<<<M2165>>>" ++ check (runes_of_ascii "root
-    // `tick` ""quote"" 'q'
-    packet")).
-Eval vm_compute in ("<<<M2687>>>" ++ check ([65533; 65533]%N ++ runes_of_ascii "Z;" ++ [65533; 65533; 7; 65533; 65533]%N ++ runes_of_ascii "e" ++ [65533; 65533; 4]%N ++ runes_of_ascii ";c$" ++ [65533; 65533; 65533; 65533]%N ++ runes_of_ascii "[B" ++ [23; 8; 7]%N ++ runes_of_ascii "}" ++ [2]%N ++ runes_of_ascii "4" ++ [65533; 6; 65533; 65533]%N ++ runes_of_ascii "tm" ++ [3; 65533]%N ++ runes_of_ascii "4" ++ [65533; 22]%N ++ runes_of_ascii "Q")).
-Eval vm_compute in ("<<<M611>>>" ++ check (runes_of_ascii "  MetaData x_y_z
-{ } // trailing space ")).
-Eval vm_compute in ("<<<M2557>>>" ++ check (runes_of_ascii "packet A { repeat u8 x @lengthOf(y), }")).
-Eval vm_compute in ("<<<M2705>>>" ++ check (runes_of_ascii "] false ""`tick`"" charz { int64 zchar[")).
-Eval vm_compute in ("<<<M2601>>>" ++ check (runes_of_ascii "packet A { match k as n { 1 : B } }")).
-Eval vm_compute in ("<<<M2598>>>" ++ check (runes_of_ascii "packet A { B { @tag(1) u8 x, }, }")).
-Eval vm_compute in ("<<<M289>>>" ++ check (runes_of_ascii "options
-    // " ++ [128512]%N ++ runes_of_ascii " emoji
-    { }
-")).
-Eval vm_compute in ("<<<M3063>>>" ++ check (runes_of_ascii "packet A {
- u8 x `d `, // c 
-}")).
-Eval vm_compute in ("<<<M3026>>>" ++ check (runes_of_ascii "packet A {
-    u8 x `a
-
-b`,
-}")).
-Eval vm_compute in ("<<<M943>>>" ++ check (runes_of_ascii "
-MetaData a1{ // a // b
-}")).
-Eval vm_compute in ("<<<M2077>>>" ++ check (runes_of_ascii "MetaData A { u64 pack, } }")).
-Eval vm_compute in ("<<<M2192>>>" ++ check (runes_of_ascii "root
-    // `tick` ""quote")).
-Eval vm_compute in ("<<<M2078>>>" ++ check (runes_of_ascii "MetaData A { u64 pack, (")).
-Eval vm_compute in ("<<<M645>>>" ++ check (runes_of_ascii "
- // packet A { u8 x, }")).
-Eval vm_compute in ("<<<M1358>>>" ++ check (runes_of_ascii "root packet Logon {
-}")).
-Eval vm_compute in ("<<<M3149>>>" ++ check (runes_of_ascii "packet A {
-}// a// b")).
-Eval vm_compute in ("<<<M590>>>" ++ check (runes_of_ascii "
-packet x_y_z { }
-
-")).
-Eval vm_compute in ("<<<M860>>>" ++ check (runes_of_ascii "//	t
-options
-{ }
-
-")).
-Eval vm_compute in ("<<<M3097>>>" ++ check (runes_of_ascii "// c" ++ [8232]%N ++ runes_of_ascii "
+Eval vm_compute in ("<<<M767>>>" ++ check (runes_of_ascii "@calculatedFrom( int32")).
+Eval vm_compute in ("<<<M976>>>" ++ check (runes_of_ascii "// c 
 packet A {
 }")).
-Eval vm_compute in ("<<<M2644>>>" ++ check (runes_of_ascii "MetaData M { x, }")).
-Eval vm_compute in ("<<<M2047>>>" ++ check (runes_of_ascii " A { u64 pack, }")).
-Eval vm_compute in ("<<<M3964>>>" ++ check (runes_of_ascii "
-packet
-
-A { }")).
-Eval vm_compute in ("<<<M2550>>>" ++ check ([65279]%N ++ runes_of_ascii "packet A {}")).
-Eval vm_compute in ("<<<M1751>>>" ++ check (runes_of_ascii "options {")).
-Eval vm_compute in ("<<<M2465>>>" ++ check (runes_of_ascii "matches")).
-Eval vm_compute in ("<<<M685>>>" ++ check (runes_of_ascii " // c")).
-Eval vm_compute in ("<<<M3090>>>" ++ check (runes_of_ascii "// c" ++ [8202]%N)).
-Eval vm_compute in ("<<<M2536>>>" ++ check (runes_of_ascii "A1b2")).
-Eval vm_compute in ("<<<M2542>>>" ++ check (runes_of_ascii "ab")).
-Eval vm_compute in ("<<<M2704>>>" ++ check (runes_of_ascii ",X")).
+Eval vm_compute in ("<<<M1058>>>" ++ check (runes_of_ascii "packet A {
+}// c x")).
+Eval vm_compute in ("<<<M325>>>" ++ check (runes_of_ascii "packet Z9_ {	}
+")).
+Eval vm_compute in ("<<<M1059>>>" ++ check (runes_of_ascii "// c x")).
+Eval vm_compute in ("<<<M730>>>" ++ check (runes_of_ascii "/")).
